@@ -604,3 +604,1529 @@ Proof. intros w Hw _. apply zpost_at_sets. apply clear_Z. exact Hw. Qed.
 
 End VCore.
 End VGen.
+
+Lemma vpost_trans {V X} (phi : key * V -> X) F G (w w1 w2 : world key V cstate) :
+  vpost phi F w w1 -> vpost phi G w1 w2 -> vpost phi (fun l => G (F l)) w w2.
+Proof.
+  intros (_ & A2 & A3) (B1 & B2 & B3). split; [exact B1|]. split; [congruence|]. rewrite B3, A3. reflexivity.
+Qed.
+
+(* ------------------------------------------------------------------ *)
+(* 4. the two instances and the lift through run_m / run_s             *)
+(* ------------------------------------------------------------------ *)
+Definition mphi (p : key * vobj) : N * N := (kcls (fst p), vdat (snd p)).
+Definition sphi (p : key * unit) : N := kcls (fst p).
+Definition idN (c : N) : N := c.
+
+Lemma mphi_cl p : fst (mphi p) = kcls (fst p).
+Proof. reflexivity. Qed.
+Lemma mphi_key k k' v : kcls k = kcls k' -> mphi (k, v) = mphi (k', v).
+Proof. unfold mphi. cbn [fst snd]. intros ->. reflexivity. Qed.
+Lemma sphi_cl p : (fun c : N => c) (sphi p) = kcls (fst p).
+Proof. reflexivity. Qed.
+Lemma sphi_key k k' (v : unit) : kcls k = kcls k' -> sphi (k, v) = sphi (k', v).
+Proof. unfold sphi. cbn [fst]. auto. Qed.
+
+Lemma mview_view m : mview m = view mphi m.
+Proof. reflexivity. Qed.
+Lemma sview_view m : sview m = view sphi m.
+Proof. reflexivity. Qed.
+
+Lemma get_mv_view r x : get_mv r (view_x x) = mview (get_m r x).
+Proof. unfold get_mv, get_m, view_x. destruct (N.eqb r 0); reflexivity. Qed.
+Lemma get_mc_view r x : get_mc r (view_x x) = cap (get_m r x).
+Proof. unfold get_mc, get_m, view_x. destruct (N.eqb r 0); reflexivity. Qed.
+Lemma get_sv_view r x : get_sv r (view_x x) = sview (get_s r x).
+Proof. unfold get_sv, get_s, view_x. destruct (N.eqb r 2); reflexivity. Qed.
+Lemma get_sc_view r x : get_sc r (view_x x) = cap (get_s r x).
+Proof. unfold get_sc, get_s, view_x. destruct (N.eqb r 2); reflexivity. Qed.
+
+Lemma view_x_put_m r m cs x :
+  cap m = cap (get_m r x) -> view_x (put_m r m cs x) = put_mv r (mview m) (view_x x).
+Proof.
+  unfold view_x, put_m, put_mv, get_m. destruct (N.eqb r 0); cbn [xm0 xm1 xs0 xs1 v0 v1 u2 u3 c0 c1 c2 c3];
+    intros ->; reflexivity.
+Qed.
+Lemma view_x_put_s r m cs x :
+  cap m = cap (get_s r x) -> view_x (put_s r m cs x) = put_sv r (sview m) (view_x x).
+Proof.
+  unfold view_x, put_s, put_sv, get_s. destruct (N.eqb r 2); cbn [xm0 xm1 xs0 xs1 v0 v1 u2 u3 c0 c1 c2 c3];
+    intros ->; reflexivity.
+Qed.
+
+Lemma run_m_sets r (c : Mm (list N)) x F :
+  sets mphi c F (w_init (xcb x) (get_m r x)) ->
+  view_x (snd (run_m r c x)) = put_mv r (F (mview (get_m r x))) (view_x x).
+Proof.
+  unfold sets, run_m, wp, w_init.
+  destruct (c _) as [body w|w|]; cbn [finish fst snd]; [| |intros []];
+    intros (Hw & Hc & Hv); cbn [self] in Hc, Hv; rewrite view_x_put_m by exact Hc;
+    rewrite mview_view, Hv; reflexivity.
+Qed.
+Lemma run_s_sets r (c : Ms (list N)) x F :
+  sets sphi c F (w_init (xcb x) (get_s r x)) ->
+  view_x (snd (run_s r c x)) = put_sv r (F (sview (get_s r x))) (view_x x).
+Proof.
+  unfold sets, run_s, wp, w_init.
+  destruct (c _) as [body w|w|]; cbn [finish fst snd]; [| |intros []];
+    intros (Hw & Hc & Hv); cbn [self] in Hc, Hv; rewrite view_x_put_s by exact Hc;
+    rewrite sview_view, Hv; reflexivity.
+Qed.
+
+Lemma run_m_on r (c : Mm (list N)) x f :
+  sets mphi c (f (cap (get_m r x))) (w_init (xcb x) (get_m r x)) ->
+  view_x (snd (run_m r c x)) = on_m r f (view_x x).
+Proof. intros H. unfold on_m. rewrite get_mc_view, get_mv_view. apply run_m_sets. exact H. Qed.
+Lemma run_s_on r (c : Ms (list N)) x f :
+  sets sphi c (f (cap (get_s r x))) (w_init (xcb x) (get_s r x)) ->
+  view_x (snd (run_s r c x)) = on_s r f (view_x x).
+Proof. intros H. unfold on_s. rewrite get_sc_view, get_sv_view. apply run_s_sets. exact H. Qed.
+
+Lemma run_m_does r (c : Mm (list N)) x f :
+  WFx x -> UniqX x -> does mphi c f -> view_x (snd (run_m r c x)) = on_m r f (view_x x).
+Proof.
+  intros Hx Hu Hc. apply run_m_on.
+  apply (Hc (w_init (xcb x) (get_m r x))); [apply WFx_get_m; exact Hx | apply UniqX_get_m; exact Hu].
+Qed.
+Lemma run_s_does r (c : Ms (list N)) x f :
+  WFx x -> UniqX x -> does sphi c f -> view_x (snd (run_s r c x)) = on_s r f (view_x x).
+Proof.
+  intros Hx Hu Hc. apply run_s_on.
+  apply (Hc (w_init (xcb x) (get_s r x))); [apply WFx_get_s; exact Hx | apply UniqX_get_s; exact Hu].
+Qed.
+
+(* a register that is not touched *)
+Lemma on_m_id r vw : on_m r (fun _ l => l) vw = vw.
+Proof. unfold on_m, put_mv, get_mv. destruct vw. destruct (N.eqb r 0); reflexivity. Qed.
+Lemma on_s_id r vw : on_s r (fun _ l => l) vw = vw.
+Proof. unfold on_s, put_sv, get_sv. destruct vw. destruct (N.eqb r 2); reflexivity. Qed.
+Lemma put_mv_same r vw : put_mv r (get_mv r vw) vw = vw.
+Proof. unfold put_mv, get_mv. destruct vw. destruct (N.eqb r 0); reflexivity. Qed.
+Lemma put_sv_same r vw : put_sv r (get_sv r vw) vw = vw.
+Proof. unfold put_sv, get_sv. destruct vw. destruct (N.eqb r 2); reflexivity. Qed.
+
+(* ------------------------------------------------------------------ *)
+(* 5. Map sessions                                                     *)
+(* ------------------------------------------------------------------ *)
+Lemma set_dat_elems i d (w : mworld) k0 v0 :
+  WF (self w) -> nth_error (Spec.elems (self w)) i = Some (k0, v0) ->
+  wp (set_dat i d)
+     (fun _ w' => WF (self w') /\ cap (self w') = cap (self w) /\
+                  Spec.elems (self w') = upd (Spec.elems (self w)) i (k0, {| vid := vid v0; vdat := d |}))
+     (fun _ => False) w.
+Proof.
+  intros Hw Hp. destruct (elems_nth_slot _ _ _ Hw Hp) as [Hi Hsl].
+  assert (Hic : i < cap (self w)) by (apply live_lt_cap; eexists; exact Hsl).
+  unfold set_dat. apply wp_bind. eapply wp_p_replace; [exact Hsl|]. apply wp_ret. simp_w. cbn [fst snd].
+  split; [apply WF_set_slot_some; auto|]. split; [apply cap_set_slot|]. apply elems_set_slot; auto.
+Qed.
+
+Lemma write_at (l : list (key * vobj)) c d i k0 v0 :
+  find_idx kcls c l = Some i -> nth_error l i = Some (k0, v0) ->
+  write (List.map mphi l) c d = List.map mphi (upd l i (k0, {| vid := vid v0; vdat := d |})).
+Proof.
+  intros Hf Hp. unfold write. rewrite (pos_map mphi fst mphi_cl), Hf, map_set_at. f_equal.
+  destruct (find_idx_inv kcls _ _ _ Hf) as [[p [Hp' Hc]] _]. rewrite Hp in Hp'. injection Hp' as <-.
+  cbn [fst] in Hc. unfold mphi. cbn [fst snd vdat]. rewrite Hc. reflexivity.
+Qed.
+Lemma write_absent (l : list (key * vobj)) c d :
+  find_idx kcls c l = None -> write (List.map mphi l) c d = List.map mphi l.
+Proof. intros Hf. unfold write. rewrite (pos_map mphi fst mphi_cl), Hf. reflexivity. Qed.
+
+(* set_dat on the slot of class c *)
+Lemma set_dat_write i d c (w0 w : mworld) :
+  WF (self w0) -> self w = self w0 -> find_idx kcls c (Spec.elems (self w0)) = Some i ->
+  wp (set_dat i d) (fun _ => vpost mphi (fun l => write l c d) w0) (fun _ => False) w.
+Proof.
+  intros Hw Hs Hf. destruct (find_idx_slot kcls _ _ _ Hw Hf) as [Hi [[k0 v0] (Hp & _ & _)]].
+  eapply wp_mono; [apply (set_dat_elems i d w k0 v0); rewrite Hs; assumption | |]; cbn beta; [|tauto].
+  intros _ w' (Hw' & Hc' & He'). rewrite Hs in Hc', He'.
+  eapply vpost_elems; [exact Hw' | exact Hc' | exact He'|]. symmetry. apply write_at; assumption.
+Qed.
+
+Section MapSessions.
+Context (debug : bool) (sc : script) (Hh : honest sc).
+Notation Em := (env_map sc).
+Let HLm : Lawful Em kcls qcls := env_map_lawful sc Hh.
+
+Lemma does_op_get_mut q d :
+  does mphi (o <- get_mut Em q ;; b <- opt_slot (fun p : key * vobj => r_val (snd p)) o ;;
+             (match o with Some i => set_dat i d | None => ret tt end) ;; ret b)
+       (fun _ l => write l (qcls q) d).
+Proof.
+  intros w Hw _. apply wp_bind.
+  eapply wp_mono; [apply (get_mut_lawful Em kcls qcls HLm q w Hw) | |]; cbn beta; [|tauto].
+  intros r w1 [[Hs1 _] ->]. apply wp_bind.
+  destruct (find_idx kcls (qcls q) (Spec.elems (self w))) as [i|] eqn:Hf.
+  - destruct (find_idx_slot kcls _ _ _ Hw Hf) as [Hi _].
+    eapply wp_mono; [apply opt_slot_spec | |]; cbn beta; [| |tauto].
+    + rewrite Hs1. apply WF_live; assumption.
+    + intros b w2 Hs2. apply wp_bind.
+      eapply wp_mono; [apply (set_dat_write i d (qcls q) w w2 Hw); [congruence | exact Hf] | |]; cbn beta; [|tauto].
+      intros _ w3 H3. apply wp_ret. exact H3.
+  - eapply wp_mono; [apply opt_slot_spec; exact I | |]; cbn beta; [|tauto].
+    intros b w2 Hs2. apply wp_bind. apply wp_ret. apply wp_ret.
+    apply vpost_same; [exact Hw | congruence|]. apply write_absent. exact Hf.
+Qed.
+
+Lemma does_op_index_mut q d :
+  does mphi (i <- index_mut Em q ;; p <- p_ref i ;; set_dat i d ;; ret (nn i :: r_val (snd p)))
+       (fun _ l => write l (qcls q) d).
+Proof.
+  intros w Hw _. apply wp_bind.
+  eapply wp_mono; [apply (index_mut_lawful Em kcls qcls HLm q w Hw) | |]; cbn beta.
+  - intros i w1 [[Hs1 _] Hf]. destruct (find_idx_slot kcls _ _ _ Hw Hf) as [Hi _].
+    apply wp_bind. apply wp_p_ref_live; [rewrite Hs1; apply WF_live; assumption|]. intros p.
+    apply wp_bind.
+    eapply wp_mono; [apply (set_dat_write i d (qcls q) w w1 Hw Hs1 Hf) | |]; cbn beta; [|tauto].
+    intros _ w3 H3. apply wp_ret. exact H3.
+  - intros w1 [[Hs1 _] Hf]. apply vpost_same; [exact Hw | exact Hs1|]. apply write_absent. exact Hf.
+Qed.
+
+End MapSessions.
+
+(* ---- borrowing iterator sessions ---- *)
+Lemma iter_steps_past kind wd : forall n j c acc (w : mworld),
+  WF (self w) -> snd c <= len (self w) -> snd c <= fst c ->
+  wp (iter_steps kind wd n j c acc) (fun r w' => self w' = self w /\ snd r = c) (fun _ => False) w.
+Proof.
+  induction n as [|n IH]; intros j c acc w Hw Hc Hge; cbn [iter_steps].
+  - apply wp_ret. auto.
+  - cbv zeta. apply wp_bind.
+    eapply wp_mono; [apply iter_next_spec; assumption | |]; cbn beta; [|tauto].
+    intros [o c'] w1 [Hs1 Ho]. cbn [fst snd] in Ho. destruct o as [i|].
+    + destruct Ho as (_ & Hlt & _). lia.
+    + destruct Ho as [_ ->].
+      eapply wp_mono; [apply IH; rewrite ?Hs1; assumption | |]; cbn beta; [|tauto].
+      intros r w2 [Hs2 Hr]. split; [congruence | exact Hr].
+Qed.
+
+Lemma iter_writes_none wd n j l : nth_error l j = None -> iter_writes wd n j l = l.
+Proof. destruct n; cbn [iter_writes]; [reflexivity|]. intros ->. reflexivity. Qed.
+
+Definition iterF (kind wd : N) (n j : nat) (l : list (N * N)) : list (N * N) :=
+  if is_mut_kind kind then iter_writes wd n j l else l.
+
+Lemma iter_steps_view kind wd : forall n j acc (w : mworld),
+  WF (self w) ->
+  wp (iter_steps kind wd n j (j, len (self w)) acc)
+     (fun r w' => vpost mphi (iterF kind wd n j) w w' /\ len (self w') = len (self w) /\
+                  snd (snd r) <= len (self w))
+     (fun _ => False) w.
+Proof.
+  induction n as [|n IH]; intros j acc w Hw; cbn [iter_steps].
+  - apply wp_ret. cbn [snd]. split; [|split; [reflexivity | lia]].
+    apply vpost_same; [exact Hw | reflexivity|]. unfold iterF. destruct (is_mut_kind kind); reflexivity.
+  - cbv zeta. apply wp_bind.
+    eapply wp_mono; [apply iter_next_spec; [exact Hw | cbn [snd]; lia] | |]; cbn beta; [|tauto].
+    intros [o c'] w1 [Hs1 Ho]. cbn [fst snd] in Ho.
+    destruct o as [i|].
+    + destruct Ho as (-> & Hlt & ->).
+      destruct (WF_live _ _ Hw Hlt) as [[k0 v0] Hsl].
+      assert (Hpe : nth_error (Spec.elems (self w)) j = Some (k0, v0)) by (apply elems_nth; assumption).
+      apply wp_bind. eapply wp_p_ref; [rewrite Hs1; exact Hsl|]. apply wp_bind.
+      unfold iterF. destruct (is_mut_kind kind) eqn:Hk.
+      * eapply wp_mono; [apply (set_dat_elems j (wd + nn j) w1 k0 v0); rewrite Hs1; assumption | |];
+          cbn beta; [|tauto].
+        intros _ w2 (Hw2 & Hc2 & He2). rewrite Hs1 in Hc2, He2.
+        assert (Hl2 : len (self w2) = len (self w)).
+        { rewrite <- (elems_length _ Hw2), He2, upd_length. apply elems_length. exact Hw. }
+        match goal with
+        | |- wp (iter_steps _ _ _ _ _ ?a) _ _ _ => pose proof (IH (S j) a w2 Hw2) as HI
+        end.
+        rewrite Hl2 in HI.
+        eapply wp_mono; [exact HI | |]; cbn beta; [|tauto].
+        intros r w3 (H3 & Hl3 & Hr). split; [|split; [congruence | exact Hr]].
+        unfold iterF in H3. rewrite Hk in H3.
+        assert (H2 : vpost mphi (fun l => set_at l j (kcls k0, (wd + N.of_nat j)%N)) w w2).
+        { eapply vpost_elems; [exact Hw2 | exact Hc2 | exact He2|]. rewrite map_set_at. reflexivity. }
+        eapply vpost_ext; [|exact (vpost_trans mphi _ _ w w2 w3 H2 H3)]. cbn beta.
+        cbn [iter_writes]. unfold view. rewrite nth_error_map, Hpe. cbn [option_map mphi fst snd]. reflexivity.
+      * apply wp_ret.
+        match goal with
+        | |- wp (iter_steps _ _ _ _ _ ?a) _ _ _ => pose proof (IH (S j) a w1) as HI
+        end.
+        rewrite Hs1 in HI. specialize (HI Hw).
+        eapply wp_mono; [exact HI | |]; cbn beta; [|tauto].
+        intros r w3 (H3 & Hl3 & Hr). split; [|split; [exact Hl3 | exact Hr]].
+        unfold iterF in H3. rewrite Hk in H3. eapply vpost_base; [exact Hs1 | exact H3].
+    + destruct Ho as [Hge ->].
+      eapply wp_mono; [apply iter_steps_past; [rewrite Hs1; exact Hw | rewrite Hs1; cbn [snd]; lia | exact Hge] | |];
+        cbn beta; [|tauto].
+      intros r w3 [Hs3 ->]. cbn [snd]. split; [|split; [congruence | lia]].
+      apply vpost_same; [exact Hw | congruence|].
+      unfold iterF. destruct (is_mut_kind kind); [|reflexivity].
+      apply iter_writes_none. apply nth_error_None. unfold view. rewrite map_length, (elems_length _ Hw).
+      cbn [fst snd] in Hge. exact Hge.
+Qed.
+
+Lemma iter_nopanic {V} (w : world key V cstate) :
+  WF (self w) ->
+  wp iter (fun c w' => self w' = self w /\ c = (0, len (self w))) (fun _ => False) w.
+Proof.
+  intros [Hl Hs]. unfold iter.
+  apply wp_bind. apply wp_p_prefix; [intros _ | lia].
+  apply wp_bind. apply wp_get_len. apply wp_ret. split; reflexivity.
+Qed.
+
+Lemma drain_nopanic {V} (w : world key V cstate) :
+  WF (self w) ->
+  wp drain (fun c w' => DrainInv c (self w') /\ cap (self w') = cap (self w) /\ cursor_len c = len (self w))
+     (fun _ => False) w.
+Proof.
+  intros [Hl Hs]. unfold drain.
+  apply wp_bind. apply wp_p_prefix; [intros _ | lia].
+  apply wp_bind. apply wp_get_len. apply wp_bind. apply wp_set_len. apply wp_ret. simp_w.
+  split; [|split].
+  - unfold DrainInv. cbn [fst snd set_len_m len]. split; [reflexivity|]. split.
+    + rewrite cap_set_len. exact Hl.
+    + intros j Hj. apply live_set_len. apply Hs. lia.
+  - apply cap_set_len.
+  - unfold cursor_len. cbn [fst snd]. lia.
+Qed.
+
+Lemma does_iter_session kind steps wd :
+  does mphi (iter_session kind steps wd)
+       (fun _ l => if N.eqb kind 1 || N.eqb kind 4 then iter_writes wd steps 0 l else l).
+Proof.
+  intros w Hw _. unfold iter_session. apply wp_bind.
+  eapply wp_mono; [apply iter_nopanic; exact Hw | |]; cbn beta; [|tauto].
+  intros c w1 [Hs1 ->]. apply wp_bind.
+  pose proof (iter_steps_view kind wd steps 0 [] w1) as HI. rewrite Hs1 in HI.
+  eapply wp_mono; [apply HI; exact Hw | |]; cbn beta; [|tauto].
+  intros [acc c'] w2 (H2 & Hl2 & Hc'). cbn [snd] in Hc'.
+  assert (H2' : vpost mphi (iterF kind wd steps 0) w w2) by (eapply vpost_base; eauto).
+  assert (Hw2 : WF (self w2)) by apply H2.
+  apply wp_frame_bind; [apply frame_dbg_iter | |].
+  2:{ intros w3 Hs3. eapply vpost_frame; [exact Hs3 | exact H2']. }
+  intros d0 w3 Hs3. apply wp_frame_bind; [apply frame_dbg_iter | |].
+  2:{ intros w4 Hs4. apply vpost_frame with (w' := w2); [congruence | exact H2']. }
+  intros d1 w4 Hs4. apply wp_bind.
+  assert (Hs42 : self w4 = self w2) by congruence.
+  unfold iterF in H2'. unfold is_mut_kind in *.
+  destruct (N.eqb kind 1 || N.eqb kind 4).
+  - apply wp_ret. apply wp_ret. eapply vpost_frame; [exact Hs42 | exact H2'].
+  - eapply wp_mono; [apply rest_slots_spec | |]; cbn beta; [| |tauto].
+    + rewrite Hs42. apply cursor_live; [exact Hw2 | lia].
+    + intros r w5 Hs5. apply wp_ret. apply vpost_frame with (w' := w2); [congruence | exact H2'].
+Qed.
+
+(* ------------------------------------------------------------------ *)
+(* 6. sessions that leave the register empty                           *)
+(* ------------------------------------------------------------------ *)
+Section ZSessions.
+Context {V : Type}.
+Notation world := (world key V cstate).
+
+Lemma detach_Z (w w2 : world) : zpost w (with_self w2 (new_map (cap (self w)))).
+Proof. unfold zpost, inv_post. simp_w. split; [split; [apply WF_new | apply cap_new] | reflexivity]. Qed.
+
+Lemma drain_session_Z (E : env key V query cstate) rp dk dv with_dbg cl take fate (w : world) :
+  WF (self w) ->
+  wp (drain_session E rp dk dv with_dbg cl take fate) (fun _ => zpost w) (zpost w) w.
+Proof.
+  intros Hw. unfold drain_session. apply wp_bind.
+  eapply wp_mono; [apply drain_nopanic; exact Hw | |]; cbn beta; [|tauto].
+  intros c w1 (HD1 & Hc1 & _). apply wp_bind.
+  eapply wp_mono; [apply drain_steps_spec; exact HD1 | |]; cbn beta; [|tauto].
+  intros [acc c'] w2 [HD2 Hc2]. cbn [snd] in HD2.
+  apply wp_frame_bind.
+  { apply frame_if; [apply frame_dbg_range | apply frame_ret]. }
+  2:{ intros w3 Hs3. apply DrainInv_zpost with (c := c'); rewrite Hs3; [exact HD2 | congruence]. }
+  intros d0 w3 Hs3. apply wp_frame_bind.
+  { apply frame_if; [apply frame_dbg_range | apply frame_ret]. }
+  2:{ intros w4 Hs4. apply DrainInv_zpost with (c := c'); rewrite Hs4, Hs3; [exact HD2 | congruence]. }
+  intros d1 w4 Hs4.
+  assert (Hs42 : self w4 = self w2) by congruence.
+  assert (HD4 : DrainInv c' (self w4)) by (rewrite Hs42; exact HD2).
+  assert (Hc4 : cap (self w4) = cap (self w)) by (rewrite Hs42; congruence).
+  assert (H4 : zpost w w4) by (eapply DrainInv_zpost; eauto).
+  apply wp_bind. destruct (N.eqb fate 0).
+  - apply wp_bind.
+    eapply wp_mono; [apply drain_drop_spec with (c := c'); exact HD4 | |]; cbn beta.
+    + intros _ w5 (Hw5 & Hl5 & Hc5). apply wp_ret. apply wp_ret.
+      split; [split; [exact Hw5 | congruence] | exact Hl5].
+    + intros w5 (Hw5 & Hl5 & Hc5). split; [split; [exact Hw5 | congruence] | exact Hl5].
+  - destruct (N.eqb fate 2).
+    + apply wp_bind.
+      eapply wp_mono; [apply drain_for_each_Z; exact HD4 | |]; cbn beta.
+      * intros n w5 [[H5 H5c] H5l]. apply wp_ret. apply wp_ret.
+        split; [split; [exact H5 | congruence] | exact H5l].
+      * intros w5 [[H5 H5c] H5l]. split; [split; [exact H5 | congruence] | exact H5l].
+    + apply wp_ret. apply wp_ret. exact H4.
+Qed.
+
+Lemma drain_nth_session_Z (E : env key V query cstate) rp pre nk (w : world) :
+  WF (self w) ->
+  wp (drain_nth_session E rp pre nk) (fun _ => zpost w) (zpost w) w.
+Proof.
+  intros Hw. unfold drain_nth_session. apply wp_bind.
+  eapply wp_mono; [apply drain_nopanic; exact Hw | |]; cbn beta; [|tauto].
+  intros c w1 (HD1 & Hc1 & _). apply wp_bind.
+  eapply wp_mono; [apply d_skip_spec; exact HD1 | |]; cbn beta; [|tauto].
+  intros c1 w2 [HD2 Hc2]. apply wp_bind.
+  eapply wp_mono; [apply d_nth_Z; exact HD2 | |]; cbn beta.
+  2:{ intros w3 [[Hw3 Hc3] Hl3]. split; [split; [exact Hw3 | congruence] | exact Hl3]. }
+  intros [o c2] w3 [HD3 Hc3]. cbn [snd] in HD3. apply wp_bind.
+  eapply wp_mono; [apply drain_next_spec; exact HD3 | |]; cbn beta; [|tauto].
+  intros [o2 c3] w4 (HD4 & Hc4 & _). cbn [snd] in HD4. apply wp_bind.
+  eapply wp_mono; [apply drain_drop_spec with (c := c3); exact HD4 | |]; cbn beta.
+  - intros _ w5 (Hw5 & Hl5 & Hc5). apply wp_ret.
+    split; [split; [exact Hw5 | congruence] | exact Hl5].
+  - intros w5 (Hw5 & Hl5 & Hc5). split; [split; [exact Hw5 | congruence] | exact Hl5].
+Qed.
+
+(* consuming iterators: the register holds a fresh container *)
+Lemma op_into_nth_Z (E : env key V query cstate)
+      (item : key * V -> M key V cstate (list N)) (rest : key * V -> M key V cstate unit) pre nk (w : world) :
+  (forall p, frame (item p)) -> (forall p, frame (rest p)) -> WF (self w) ->
+  wp (c <- get_cap ;; old <- get_self ;; put_self (new_map c) ;;
+      '(body, _) <- swap_self old (into_nth_session E item rest pre nk) ;; ret body)
+     (fun _ => zpost w) (zpost w) w.
+Proof.
+  intros Hitem Hrest Hw. apply wp_bind. apply wp_get_cap. apply wp_bind. apply wp_get_self.
+  apply wp_bind. apply wp_put_self. apply wp_bind. apply wp_swap_self. simp_w.
+  eapply wp_mono; [apply (into_nth_session_safe item rest Hitem Hrest); simp_w; exact Hw | |]; cbn beta.
+  - intros body w2 _. apply wp_ret. apply detach_Z.
+  - intros w2 _. apply detach_Z.
+Qed.
+
+(* replacing the register by an empty container *)
+Lemma replace_empty_Z (E : env key V query cstate) body (w : world) :
+  WF (self w) -> wp (replace_with E (ret tt) body) (fun _ => zpost w) (zpost w) w.
+Proof.
+  intros Hw. unfold replace_with. apply wp_bind. apply wp_get_cap. apply wp_bind.
+  apply wp_swap_self. apply wp_ret. simp_w.
+  apply wp_bind. apply wp_get_self. apply wp_bind. apply wp_put_self. apply wp_bind.
+  apply wp_swap_self. simp_w.
+  eapply wp_mono; [apply drop_map_safe; simp_w; exact Hw | |]; cbn beta.
+  - intros [] w2 _. apply wp_ret. apply detach_Z.
+  - intros w2 _. apply detach_Z.
+Qed.
+
+End ZSessions.
+
+Lemma op_into_iter_Z sc kind take fate (w : mworld) :
+  WF (self w) ->
+  wp (c <- get_cap ;; old <- get_self ;; put_self (new_map c) ;;
+      '(body, _) <- swap_self old (into_session sc kind take fate) ;; ret body)
+     (fun _ => zpost w) (zpost w) w.
+Proof.
+  intros Hw. apply wp_bind. apply wp_get_cap. apply wp_bind. apply wp_get_self.
+  apply wp_bind. apply wp_put_self. apply wp_bind. apply wp_swap_self. simp_w.
+  eapply wp_mono; [apply into_session_safe; simp_w; exact Hw | |]; cbn beta.
+  - intros body w2 _. apply wp_ret. apply detach_Z.
+  - intros w2 _. apply detach_Z.
+Qed.
+
+Lemma op_s_into_iter_Z sc take fate (w : sworld) :
+  WF (self w) ->
+  wp (c <- get_cap ;; old <- get_self ;; put_self (new_map c) ;;
+      '(body, _) <- swap_self old
+         (acc <- set_into_steps take [] ;; l <- get_len ;;
+          tail <- (if N.eqb fate 0 then (drop_map (env_set sc) ;; ret [])
+                   else if N.eqb fate 2
+                        then (n <- finally_drop (env_set sc) (set_into_for_each sc (S l) 0) ;; ret [nn n])
+                        else ret []) ;;
+          ret (acc ++ [nn l] ++ tail)) ;;
+      ret body)
+     (fun _ => zpost w) (zpost w) w.
+Proof.
+  intros Hw. apply wp_bind. apply wp_get_cap. apply wp_bind. apply wp_get_self.
+  apply wp_bind. apply wp_put_self. apply wp_bind. apply wp_swap_self. simp_w.
+  assert (Hfin : forall w2 : sworld, zpost w (with_self w2 (new_map (cap (self w))))).
+  { intros w2. apply detach_Z. }
+  apply wp_bind.
+  eapply wp_mono; [apply keeps_set_into_steps; simp_w; exact Hw | |]; cbn beta.
+  - intros acc w1 [Hw1 _]. apply wp_bind. apply wp_get_len. apply wp_bind.
+    destruct (N.eqb fate 0).
+    + apply wp_bind.
+      eapply wp_mono; [apply drop_map_safe; exact Hw1 | |]; cbn beta.
+      * intros _ w2 _. apply wp_ret. apply wp_ret. apply wp_ret. apply Hfin.
+      * intros w2 _. apply Hfin.
+    + destruct (N.eqb fate 2).
+      * apply wp_bind.
+        eapply wp_mono; [apply Safety3.wp_finally_drop with (Qn := fun _ _ => True) | |]; cbn beta.
+        -- eapply wp_mono; [apply keeps_set_into_for_each; exact Hw1 | |]; cbn beta; [auto|].
+           intros w' [H _]. exact H.
+        -- intros n w2 _. apply wp_ret. apply wp_ret. apply wp_ret. apply Hfin.
+        -- intros w2 _. apply Hfin.
+      * apply wp_ret. apply wp_ret. apply wp_ret. apply Hfin.
+  - intros w1 _. apply Hfin.
+Qed.
+
+(* ------------------------------------------------------------------ *)
+(* 7. replacing a register by a freshly built container                *)
+(* ------------------------------------------------------------------ *)
+Section VReplace.
+Context {V X : Type} (phi : key * V -> X).
+Notation world := (world key V cstate).
+
+(* success: the new contents; failure of the build: the register is kept *)
+Lemma replace_with_sets (E : env key V query cstate) build body (w : world) F :
+  WF (self w) ->
+  (forall w0 : world, self w0 = new_map (cap (self w)) ->
+     wp build (fun _ w' => WF (self w') /\ cap (self w') = cap (self w) /\
+                           view phi (self w') = F (view phi (self w)))
+              (fun _ => F (view phi (self w)) = view phi (self w)) w0) ->
+  sets phi (replace_with E build body) F w.
+Proof.
+  intros Hw Hb. unfold sets, replace_with. apply wp_bind. apply wp_get_cap. apply wp_bind.
+  apply wp_swap_self.
+  eapply wp_mono; [apply Hb; reflexivity | |]; cbn beta.
+  - intros [] w1 (Hw1 & Hc1 & Hv1).
+    apply wp_bind. apply wp_get_self. apply wp_bind. apply wp_put_self. apply wp_bind.
+    apply wp_swap_self. simp_w.
+    eapply wp_mono; [apply drop_map_safe; simp_w; exact Hw | |]; cbn beta.
+    + intros [] w2 _. apply wp_ret. unfold vpost. simp_w. auto.
+    + intros w2 _. unfold vpost. simp_w. auto.
+  - intros w1 HF. simp_w. apply vpost_same; [exact Hw | reflexivity | exact HF].
+Qed.
+
+End VReplace.
+
+(* ------------------------------------------------------------------ *)
+(* 8. the entry API                                                    *)
+(* ------------------------------------------------------------------ *)
+Lemma call_tick_honest sc s : honest sc -> fst (call_tick sc s) = false.
+Proof. intros [_ Hf]. unfold call_tick. rewrite Hf. reflexivity. Qed.
+
+Lemma write_at_gen (l : list (key * vobj)) c d i k0 v0 v' :
+  find_idx kcls c l = Some i -> nth_error l i = Some (k0, v0) -> vdat v' = d ->
+  write (List.map mphi l) c d = List.map mphi (upd l i (k0, v')).
+Proof.
+  intros Hf Hp Hd. unfold write. rewrite (pos_map mphi fst mphi_cl), Hf, map_set_at. f_equal.
+  destruct (find_idx_inv kcls _ _ _ Hf) as [[p [Hp' Hc]] _]. rewrite Hp in Hp'. injection Hp' as <-.
+  cbn [fst] in Hc. unfold mphi. cbn [fst snd]. rewrite Hc, Hd. reflexivity.
+Qed.
+
+Lemma bump_at (l : list (key * vobj)) c i k0 v0 :
+  find_idx kcls c l = Some i -> nth_error l i = Some (k0, v0) ->
+  bump (List.map mphi l) c = List.map mphi (upd l i (k0, {| vid := vid v0; vdat := vdat v0 + 100 |})).
+Proof.
+  intros Hf Hp. unfold bump. rewrite (pos_map mphi fst mphi_cl), Hf, nth_error_map, Hp.
+  cbn [option_map mphi fst snd]. rewrite map_set_at. reflexivity.
+Qed.
+
+Lemma present_map (l : list (key * vobj)) c :
+  present c (List.map mphi l) = match find_idx kcls c l with Some _ => true | None => false end.
+Proof. unfold present. rewrite (pos_map mphi fst mphi_cl). reflexivity. Qed.
+
+Lemma del_at (l : list (key * vobj)) c i :
+  find_idx kcls c l = Some i -> del fst (List.map mphi l) c = List.map mphi (swap_remove l i).
+Proof. intros Hf. unfold del. rewrite (pos_map mphi fst mphi_cl), Hf. symmetry. apply map_swap_del. Qed.
+Lemma del_absent (l : list (key * vobj)) c :
+  find_idx kcls c l = None -> del fst (List.map mphi l) c = List.map mphi l.
+Proof. intros Hf. unfold del. rewrite (pos_map mphi fst mphi_cl), Hf. reflexivity. Qed.
+
+Lemma put_write_present (n : nat) (l : list (key * vobj)) c d i :
+  find_idx kcls c l = Some i -> put fst n (List.map mphi l) (c, d) = write (List.map mphi l) c d.
+Proof. intros Hf. unfold put, write. cbn [fst]. rewrite (pos_map mphi fst mphi_cl), Hf. reflexivity. Qed.
+Lemma put_add_absent (n : nat) (l : list (key * vobj)) c d :
+  find_idx kcls c l = None -> put fst n (List.map mphi l) (c, d) = add_new fst n (List.map mphi l) (c, d).
+Proof. intros Hf. unfold put, add_new. cbn [fst]. rewrite (pos_map mphi fst mphi_cl), Hf. reflexivity. Qed.
+
+(* an index-producing computation followed by r_slotval *)
+Lemma wp_then_slotval_V (c : Mm nat) tag F (w0 w : mworld) :
+  wp c (fun i w' => vpost mphi F w0 w' /\ i < len (self w')) (vpost mphi F w0) w ->
+  wp (i <- c ;; r_slotval tag i) (fun _ => vpost mphi F w0) (vpost mphi F w0) w.
+Proof.
+  intros Hc. apply wp_bind. eapply wp_mono; [exact Hc | |]; cbn beta; [|auto].
+  intros i w1 [H1 Hi]. eapply wp_mono; [apply r_slotval_spec | |]; cbn beta.
+  - apply WF_live; [apply H1 | exact Hi].
+  - intros _ w2 Hs2. eapply vpost_frame; eauto.
+  - intros w2 [].
+Qed.
+Lemma sets_then_slotval (c : Mm nat) tag F (w : mworld) :
+  wp c (fun i w' => vpost mphi F w w' /\ i < len (self w')) (vpost mphi F w) w ->
+  sets mphi (i <- c ;; r_slotval tag i) F w.
+Proof. apply wp_then_slotval_V. Qed.
+
+(* get the slot of class c, render it, overwrite its payload *)
+Lemma sets_slot_set tag j d c (w : mworld) :
+  WF (self w) -> find_idx kcls c (Spec.elems (self w)) = Some j ->
+  sets mphi (r <- r_slotval tag j ;; set_dat j d ;; ret r) (fun l => write l c d) w.
+Proof.
+  intros Hw Hf. destruct (find_idx_slot kcls _ _ _ Hw Hf) as [Hj _].
+  apply wp_bind. eapply wp_mono; [apply r_slotval_spec; apply WF_live; assumption | |]; cbn beta; [|tauto].
+  intros r w1 Hs1. apply wp_bind.
+  eapply wp_mono; [apply (set_dat_write j d c w w1 Hw Hs1 Hf) | |]; cbn beta; [|tauto].
+  intros _ w2 H2. apply wp_ret. exact H2.
+Qed.
+
+Section VEntry.
+Context (debug : bool) (sc : script) (Hh : honest sc).
+Notation Em := (env_map sc).
+Let HLm : Lawful Em kcls qcls := env_map_lawful sc Hh.
+
+(* what entry_of returned *)
+Definition ent_rel (k : key) (e : @entry key) (w : mworld) : Prop :=
+  match find_idx kcls (kcls k) (Spec.elems (self w)) with
+  | Some i => e = Occupied i
+  | None => e = Vacant k
+  end.
+
+Notation addF k d w := (fun l : list (N * N) => add_new fst (cap (self w)) l (kcls k, d)).
+
+Lemma vac_insert_view k v (w : mworld) :
+  WF (self w) -> find_idx kcls (kcls k) (Spec.elems (self w)) = None ->
+  wp (vac_insert Em debug k v)
+     (fun i w' => vpost mphi (addF k (vdat v) w) w w' /\ i < len (self w'))
+     (vpost mphi (addF k (vdat v) w) w) w.
+Proof.
+  intros Hw Hf.
+  eapply wp_mono; [apply (vac_insert_lawful Em debug kcls qcls HLm k v w Hw Hf) | |]; cbn beta.
+  - intros i w' (Hw' & Hc' & _ & He & Hi & Hlt). split.
+    + eapply vpost_elems; [exact Hw' | exact Hc' | exact He|]. symmetry.
+      apply (add_new_absent mphi fst mphi_cl _ _ k v Hf). rewrite (elems_length _ Hw). exact Hlt.
+    + rewrite <- (elems_length _ Hw'), He, app_length, Hi. cbn [length]. lia.
+  - intros w' (Hs & _ & Hfull). apply vpost_same; [exact Hw | exact Hs|].
+    apply (add_new_full mphi fst mphi_cl _ _ k v Hf). rewrite (elems_length _ Hw). lia.
+Qed.
+
+Lemma or_insert_occ i v (w : mworld) :
+  WF (self w) -> i < len (self w) ->
+  wp (or_insert Em debug (Occupied i) v)
+     (fun j w' => j = i /\ self w' = self w) (fun w' => self w' = self w) w.
+Proof.
+  intros Hw Hi. cbn [or_insert]. apply wp_bind.
+  eapply wp_mono; [apply occ_into_mut_spec; assumption | |]; cbn beta; [|tauto].
+  intros j w1 [-> Hs1]. apply wp_bind. apply wp_frame; [apply frame_drop_val | |].
+  - intros _ w2 Hs2. apply wp_ret. split; [reflexivity | congruence].
+  - intros w2 Hs2. congruence.
+Qed.
+
+Lemma or_insert_view e k v (w : mworld) :
+  WF (self w) -> ent_rel k e w ->
+  wp (or_insert Em debug e v)
+     (fun i w' => vpost mphi (addF k (vdat v) w) w w' /\ i < len (self w'))
+     (vpost mphi (addF k (vdat v) w) w) w.
+Proof.
+  intros Hw He. unfold ent_rel in He.
+  destruct (find_idx kcls (kcls k) (Spec.elems (self w))) as [i|] eqn:Hf; subst e.
+  - destruct (find_idx_slot kcls _ _ _ Hw Hf) as [Hi _].
+    assert (HF : add_new fst (cap (self w)) (view mphi (self w)) (kcls k, vdat v) = view mphi (self w))
+      by (apply (add_new_present mphi fst mphi_cl _ _ k v i Hf)).
+    eapply wp_mono; [apply or_insert_occ; assumption | |]; cbn beta.
+    + intros j w1 [-> Hs1]. split; [apply vpost_same; assumption | rewrite Hs1; exact Hi].
+    + intros w1 Hs1. apply vpost_same; assumption.
+  - cbn [or_insert]. apply vac_insert_view; assumption.
+Qed.
+
+(* or_insert_with / or_insert_with_key with a closure that yields payload d *)
+Lemma call_mk_view (f : cstate -> option vobj * cstate) d (w : mworld) :
+  (forall s, exists v' s', f s = (Some v', s') /\ vdat v' = d) ->
+  wp (call_mk f) (fun v' w' => self w' = self w /\ vdat v' = d) (fun _ => False) w.
+Proof.
+  intros Hf.
+  eapply wp_mono; [apply call_mk_lawful | |]; cbn beta; [| |tauto].
+  - intros s. destruct (Hf s) as (v' & s' & H & _). eauto.
+  - intros v' w' (Hs & _ & s & s' & Hfs). split; [exact Hs|].
+    destruct (Hf s) as (v'' & s'' & H & Hd). rewrite Hfs in H. injection H as -> _. exact Hd.
+Qed.
+
+Lemma vac_with_view k (f : cstate -> option vobj * cstate) d (w : mworld) :
+  (forall s, exists v' s', f s = (Some v', s') /\ vdat v' = d) ->
+  WF (self w) -> find_idx kcls (kcls k) (Spec.elems (self w)) = None ->
+  wp (v <- call_mk f ;; vac_insert Em debug k v)
+     (fun i w' => vpost mphi (addF k d w) w w' /\ i < len (self w'))
+     (vpost mphi (addF k d w) w) w.
+Proof.
+  intros Hf Hw Hn. apply wp_bind.
+  eapply wp_mono; [apply call_mk_view; exact Hf | |]; cbn beta; [|tauto].
+  intros v' w1 [Hs1 Hd]. subst d.
+  eapply wp_mono; [apply vac_insert_view; rewrite Hs1; assumption | |]; cbn beta; rewrite Hs1.
+  - intros i w2 [H2 Hi]. split; [eapply vpost_base; eauto | exact Hi].
+  - intros w2 H2. eapply vpost_base; eauto.
+Qed.
+
+Lemma or_insert_with_view e k f d (w : mworld) :
+  (forall s, exists v' s', f s = (Some v', s') /\ vdat v' = d) ->
+  WF (self w) -> ent_rel k e w ->
+  wp (or_insert_with Em debug e f)
+     (fun i w' => vpost mphi (addF k d w) w w' /\ i < len (self w'))
+     (vpost mphi (addF k d w) w) w.
+Proof.
+  intros Hfd Hw He. unfold ent_rel in He.
+  destruct (find_idx kcls (kcls k) (Spec.elems (self w))) as [i|] eqn:Hf; subst e; cbn [or_insert_with].
+  - destruct (find_idx_slot kcls _ _ _ Hw Hf) as [Hi _].
+    assert (HF : add_new fst (cap (self w)) (view mphi (self w)) (kcls k, d) = view mphi (self w)).
+    { change (kcls k, d) with (mphi (k, {| vid := 0; vdat := d |})).
+      apply (add_new_present mphi fst mphi_cl _ _ k _ i Hf). }
+    eapply wp_mono; [apply occ_into_mut_spec; assumption | |]; cbn beta; [|tauto].
+    intros j w1 [-> Hs1]. split; [apply vpost_same; assumption | rewrite Hs1; exact Hi].
+  - apply vac_with_view; assumption.
+Qed.
+
+Lemma or_insert_with_key_view e k f d (w : mworld) :
+  (forall s, exists v' s', f k s = (Some v', s') /\ vdat v' = d) ->
+  WF (self w) -> ent_rel k e w ->
+  wp (or_insert_with_key Em debug e f)
+     (fun i w' => vpost mphi (addF k d w) w w' /\ i < len (self w'))
+     (vpost mphi (addF k d w) w) w.
+Proof.
+  intros Hfd Hw He. unfold ent_rel in He.
+  destruct (find_idx kcls (kcls k) (Spec.elems (self w))) as [i|] eqn:Hf; subst e; cbn [or_insert_with_key].
+  - destruct (find_idx_slot kcls _ _ _ Hw Hf) as [Hi _].
+    assert (HF : add_new fst (cap (self w)) (view mphi (self w)) (kcls k, d) = view mphi (self w)).
+    { change (kcls k, d) with (mphi (k, {| vid := 0; vdat := d |})).
+      apply (add_new_present mphi fst mphi_cl _ _ k _ i Hf). }
+    eapply wp_mono; [apply occ_into_mut_spec; assumption | |]; cbn beta; [|tauto].
+    intros j w1 [-> Hs1]. split; [apply vpost_same; assumption | rewrite Hs1; exact Hi].
+  - apply (vac_with_view k (f k)); assumption.
+Qed.
+
+Lemma mk_val_honest v s : exists v' s', mk_val sc v s = (Some v', s') /\ vdat v' = vdat v.
+Proof.
+  unfold mk_val. pose proof (call_tick_honest sc s Hh) as Hb.
+  destruct (call_tick sc s) as [boom s']. cbn [fst] in Hb. subst boom. eauto.
+Qed.
+Lemma mk_default_honest s : exists v' s', mk_default sc s = (Some v', s') /\ vdat v' = 0%N.
+Proof.
+  unfold mk_default. pose proof (call_tick_honest sc s Hh) as Hb.
+  destruct (call_tick sc s) as [boom s']. cbn [fst] in Hb. subst boom. eexists. eexists. split; reflexivity.
+Qed.
+Lemma modf_add_honest s v : fst (modf_add sc s v) = (false, {| vid := vid v; vdat := vdat v + 100 |}).
+Proof.
+  unfold modf_add. pose proof (call_tick_honest sc s Hh) as Hb.
+  destruct (call_tick sc s) as [boom s']. cbn [fst] in Hb. subst boom. reflexivity.
+Qed.
+
+(* ---- one lemma per chain ---- *)
+Lemma chV_or_insert e k v (w : mworld) : WF (self w) -> ent_rel k e w ->
+  sets mphi (i <- or_insert Em debug e v ;; r_slotval 0 i) (addF k (vdat v) w) w.
+Proof. intros Hw He. apply sets_then_slotval. apply or_insert_view; assumption. Qed.
+
+Lemma chV_or_insert_with e k v (w : mworld) : WF (self w) -> ent_rel k e w ->
+  sets mphi (i <- or_insert_with Em debug e (mk_val sc v) ;; r_slotval 0 i) (addF k (vdat v) w) w.
+Proof.
+  intros Hw He. apply sets_then_slotval. apply or_insert_with_view; [apply mk_val_honest | assumption..].
+Qed.
+
+Lemma chV_or_insert_with_key e k v (w : mworld) : WF (self w) -> ent_rel k e w ->
+  sets mphi (i <- or_insert_with_key Em debug e (fun _ => mk_val sc v) ;; r_slotval 0 i) (addF k (vdat v) w) w.
+Proof.
+  intros Hw He. apply sets_then_slotval.
+  apply or_insert_with_key_view; [intros s; apply mk_val_honest | assumption..].
+Qed.
+
+Lemma chV_or_default e k (w : mworld) : WF (self w) -> ent_rel k e w ->
+  sets mphi (i <- or_insert_with Em debug e (mk_default sc) ;; r_slotval 0 i) (addF k 0%N w) w.
+Proof.
+  intros Hw He. apply sets_then_slotval. apply or_insert_with_view; [apply mk_default_honest | assumption..].
+Qed.
+
+Lemma chV_and_modify e k v (w : mworld) : WF (self w) -> ent_rel k e w ->
+  sets mphi (e' <- and_modify e (modf_add sc) ;; i <- or_insert Em debug e' v ;; r_slotval 0 i)
+       (fun l => if present (kcls k) l then bump l (kcls k) else add_new fst (cap (self w)) l (kcls k, vdat v)) w.
+Proof.
+  intros Hw He. pose proof He as He0. unfold ent_rel in He.
+  destruct (find_idx kcls (kcls k) (Spec.elems (self w))) as [i|] eqn:Hf; subst e; cbn [and_modify].
+  - destruct (find_idx_slot kcls _ _ _ Hw Hf) as [Hi [[k0 v0] (Hp & _ & _)]].
+    apply wp_bind. apply wp_bind.
+    eapply wp_mono; [apply occ_get_mut_spec; assumption | |]; cbn beta; [|tauto].
+    intros j w1 [_ Hs1]. apply wp_bind.
+    eapply wp_mono;
+      [apply (call_modf_lawful (modf_add sc) (fun v => {| vid := vid v; vdat := vdat v + 100 |}) i w1);
+       [rewrite Hs1; exact Hw | apply modf_add_honest | rewrite Hs1; exact Hp] | |]; cbn beta; [|tauto].
+    intros _ w2 (Hw2 & Hc2 & He2 & _). rewrite Hs1 in Hc2, He2. apply wp_ret.
+    assert (H2 : vpost mphi (fun l => if present (kcls k) l then bump l (kcls k)
+                                      else add_new fst (cap (self w)) l (kcls k, vdat v)) w w2).
+    { eapply vpost_elems; [exact Hw2 | exact Hc2 | exact He2|]. unfold view.
+      rewrite present_map, Hf. symmetry. apply bump_at; assumption. }
+    assert (Hi2 : i < len (self w2)).
+    { rewrite <- (elems_length _ Hw2), He2, upd_length, (elems_length _ Hw). exact Hi. }
+    apply wp_then_slotval_V.
+    eapply wp_mono; [apply or_insert_occ; assumption | |]; cbn beta.
+    + intros j' w3 [-> Hs3]. split; [eapply vpost_frame; eauto | rewrite Hs3; exact Hi2].
+    + intros w3 Hs3. eapply vpost_frame; eauto.
+  - apply wp_bind. apply wp_ret.
+    eapply sets_ext; [|apply (chV_or_insert (Vacant k) k v w Hw He0)]. cbn beta.
+    unfold view. rewrite present_map, Hf. reflexivity.
+Qed.
+
+Lemma chV_key e k (w : mworld) : WF (self w) -> ent_rel k e w ->
+  sets mphi (x <- entry_key e ;;
+             match x with
+             | inl j => p <- p_ref j ;; ret ([0%N; nn j] ++ r_key (fst p))
+             | inr k' => drop_key Em k' ;; ret (1%N :: r_key k')
+             end) (fun l => l) w.
+Proof.
+  intros Hw He. apply stays_at_sets; [exact Hw|].
+  assert (Hok : entry_ok e (self w)).
+  { unfold ent_rel in He. destruct (find_idx kcls (kcls k) (Spec.elems (self w))) as [i|] eqn:Hf; subst e;
+      cbn [entry_ok]; [|exact I]. apply (find_idx_slot kcls _ _ _ Hw Hf). }
+  apply wp_bind.
+  eapply wp_mono; [apply entry_key_spec; assumption | |]; cbn beta; [|tauto].
+  intros [j|k'] w1 [Hs1 Hj].
+  - apply wp_bind. apply wp_p_ref_live; [rewrite Hs1; apply WF_live; assumption|].
+    intros p. apply wp_ret. exact Hs1.
+  - apply wp_frame_bind; [apply frame_drop_key | |].
+    + intros _ w2 Hs2. apply wp_ret. congruence.
+    + intros w2 Hs2. congruence.
+Qed.
+
+Lemma chV_get e k (w : mworld) : WF (self w) -> ent_rel k e w ->
+  sets mphi (match e with
+             | Occupied i => j <- occ_get i ;; r_slotval 0 j
+             | Vacant k' => drop_key Em k' ;; ret (1%N :: r_key k')
+             end) (fun l => l) w.
+Proof.
+  intros Hw He. apply stays_at_sets; [exact Hw|]. unfold ent_rel in He.
+  destruct (find_idx kcls (kcls k) (Spec.elems (self w))) as [i|] eqn:Hf; subst e.
+  - destruct (find_idx_slot kcls _ _ _ Hw Hf) as [Hi _]. apply wp_bind.
+    eapply wp_mono; [apply occ_get_spec; assumption | |]; cbn beta; [|tauto].
+    intros j w1 [-> Hs1].
+    eapply wp_mono; [apply r_slotval_spec; rewrite Hs1; apply WF_live; assumption | |]; cbn beta; [|tauto].
+    intros _ w2 Hs2. congruence.
+  - apply wp_frame_bind; [apply frame_drop_key | |].
+    + intros _ w2 Hs2. apply wp_ret. exact Hs2.
+    + intros w2 Hs2. exact Hs2.
+Qed.
+
+Lemma chV_get_mut e k v (w : mworld) : WF (self w) -> ent_rel k e w ->
+  sets mphi (match e with
+             | Occupied i => j <- occ_get_mut i ;; r <- r_slotval 0 j ;; set_dat j (vdat v) ;; ret r
+             | Vacant k' => ret (1%N :: r_key k')
+             end) (fun l => write l (kcls k) (vdat v)) w.
+Proof.
+  intros Hw He. unfold ent_rel in He.
+  destruct (find_idx kcls (kcls k) (Spec.elems (self w))) as [i|] eqn:Hf; subst e.
+  - destruct (find_idx_slot kcls _ _ _ Hw Hf) as [Hi _]. apply wp_bind.
+    eapply wp_mono; [apply occ_get_mut_spec; assumption | |]; cbn beta; [|tauto].
+    intros j w1 [-> Hs1].
+    eapply wp_mono; [apply (sets_slot_set 0 i (vdat v) (kcls k) w1); rewrite Hs1; assumption | |]; cbn beta.
+    + intros _ w2 H2. eapply vpost_base; eauto.
+    + intros w2 H2. eapply vpost_base; eauto.
+  - apply wp_ret. apply vpost_same; [exact Hw | reflexivity|]. apply write_absent. exact Hf.
+Qed.
+
+Lemma chV_insert e k v (w : mworld) : WF (self w) -> ent_rel k e w ->
+  sets mphi (match e with
+             | Occupied i => old <- occ_insert i v ;; ret (0%N :: r_val old)
+             | Vacant k' => j <- vac_insert Em debug k' v ;; r_slotval 1 j
+             end) (fun l => put fst (cap (self w)) l (kcls k, vdat v)) w.
+Proof.
+  intros Hw He. unfold ent_rel in He.
+  destruct (find_idx kcls (kcls k) (Spec.elems (self w))) as [i|] eqn:Hf; subst e.
+  - destruct (find_idx_slot kcls _ _ _ Hw Hf) as [Hi [[k0 v0] (Hp & _ & _)]]. apply wp_bind.
+    eapply wp_mono; [apply (occ_insert_lawful i v w Hw k0 v0 Hp) | |]; cbn beta; [|tauto].
+    intros old w1 (Hw1 & Hc1 & _ & _ & He1). apply wp_ret.
+    eapply vpost_elems; [exact Hw1 | exact Hc1 | exact He1|]. unfold view.
+    rewrite (put_write_present _ _ _ _ i Hf). symmetry. apply (write_at_gen _ _ _ i k0 v0 v Hf Hp eq_refl).
+  - eapply sets_ext; [|apply sets_then_slotval; apply vac_insert_view; assumption]. cbn beta.
+    unfold view. symmetry. apply put_add_absent. exact Hf.
+Qed.
+
+Lemma chV_remove e k (w : mworld) : WF (self w) -> ent_rel k e w ->
+  sets mphi (match e with
+             | Occupied i => old <- occ_remove Em debug i ;; ret (0%N :: r_val old)
+             | Vacant k' => drop_key Em k' ;; ret [1%N]
+             end) (fun l => del fst l (kcls k)) w.
+Proof.
+  intros Hw He. unfold ent_rel in He.
+  destruct (find_idx kcls (kcls k) (Spec.elems (self w))) as [i|] eqn:Hf; subst e.
+  - destruct (find_idx_slot kcls _ _ _ Hw Hf) as [Hi _]. apply wp_bind.
+    eapply wp_mono; [apply (occ_remove_lawful Em debug kcls qcls HLm i w Hw Hi) | |]; cbn beta; [|tauto].
+    intros old w1 (Hw1 & Hc1 & k0 & _ & He1 & _). apply wp_ret.
+    eapply vpost_elems; [exact Hw1 | exact Hc1 | exact He1|]. symmetry. apply del_at. exact Hf.
+  - apply wp_frame_bind; [apply frame_drop_key | |].
+    + intros _ w2 Hs2. apply wp_ret. apply vpost_same; [exact Hw | exact Hs2 | apply del_absent; exact Hf].
+    + intros w2 Hs2. apply vpost_same; [exact Hw | exact Hs2 | apply del_absent; exact Hf].
+Qed.
+
+Lemma chV_remove_entry e k (w : mworld) : WF (self w) -> ent_rel k e w ->
+  sets mphi (match e with
+             | Occupied i => p <- occ_remove_entry debug i ;; ret (0%N :: r_pair p)
+             | Vacant k' => ret (1%N :: r_key k')
+             end) (fun l => del fst l (kcls k)) w.
+Proof.
+  intros Hw He. unfold ent_rel in He.
+  destruct (find_idx kcls (kcls k) (Spec.elems (self w))) as [i|] eqn:Hf; subst e.
+  - destruct (find_idx_slot kcls _ _ _ Hw Hf) as [Hi _]. apply wp_bind.
+    eapply wp_mono; [apply (occ_remove_entry_lawful debug i w Hw Hi) | |]; cbn beta; [|tauto].
+    intros p w1 (Hw1 & Hc1 & _ & _ & He1). apply wp_ret.
+    eapply vpost_elems; [exact Hw1 | exact Hc1 | exact He1|]. symmetry. apply del_at. exact Hf.
+  - apply wp_ret. apply vpost_same; [exact Hw | reflexivity | apply del_absent; exact Hf].
+Qed.
+
+Lemma chV_into_mut e k v (w : mworld) : WF (self w) -> ent_rel k e w ->
+  sets mphi (match e with
+             | Occupied i => j <- occ_into_mut i ;; r <- r_slotval 0 j ;; set_dat j (vdat v) ;; ret r
+             | Vacant k' => j <- vac_insert Em debug k' v ;; r_slotval 1 j
+             end) (fun l => put fst (cap (self w)) l (kcls k, vdat v)) w.
+Proof.
+  intros Hw He. unfold ent_rel in He.
+  destruct (find_idx kcls (kcls k) (Spec.elems (self w))) as [i|] eqn:Hf; subst e.
+  - destruct (find_idx_slot kcls _ _ _ Hw Hf) as [Hi _]. apply wp_bind.
+    eapply wp_mono; [apply occ_into_mut_spec; assumption | |]; cbn beta; [|tauto].
+    intros j w1 [-> Hs1].
+    assert (HF : put fst (cap (self w)) (view mphi (self w)) (kcls k, vdat v)
+                 = write (view mphi (self w)) (kcls k) (vdat v)) by (apply (put_write_present _ _ _ _ i Hf)).
+    eapply wp_mono; [apply (sets_slot_set 0 i (vdat v) (kcls k) w1); rewrite Hs1; assumption | |]; cbn beta.
+    + intros _ w2 H2.
+      apply (vpost_ext mphi (fun l => write l (kcls k) (vdat v))
+               (fun l => put fst (cap (self w)) l (kcls k, vdat v))); [symmetry; exact HF|].
+      eapply vpost_base; eauto.
+    + intros w2 H2.
+      apply (vpost_ext mphi (fun l => write l (kcls k) (vdat v))
+               (fun l => put fst (cap (self w)) l (kcls k, vdat v))); [symmetry; exact HF|].
+      eapply vpost_base; eauto.
+  - eapply sets_ext; [|apply sets_then_slotval; apply vac_insert_view; assumption]. cbn beta.
+    unfold view. symmetry. apply put_add_absent. exact Hf.
+Qed.
+
+Lemma does_entry_chain k chain v :
+  does mphi (entry_chain debug sc k chain v) (fun n l => entry_v n l (kcls k) chain (vdat v)).
+Proof.
+  intros w Hw _. unfold entry_chain. apply wp_bind.
+  eapply wp_mono; [apply (entry_of_lawful Em kcls qcls HLm k w Hw) | |]; cbn beta; [|tauto].
+  intros e w1 [Hs1 He].
+  assert (Hw1 : WF (self w1)) by (rewrite Hs1; exact Hw).
+  assert (He1 : ent_rel k e w1).
+  { unfold ent_rel. rewrite Hs1. destruct (find_idx kcls (kcls k) (Spec.elems (self w))); apply He. }
+  assert (Hb : sets mphi
+    (match chain with
+     | 0%N => i <- or_insert Em debug e v ;; r_slotval 0 i
+     | 1%N => i <- or_insert_with Em debug e (mk_val sc v) ;; r_slotval 0 i
+     | 2%N => i <- or_insert_with_key Em debug e (fun _ => mk_val sc v) ;; r_slotval 0 i
+     | 3%N => i <- or_insert_with Em debug e (mk_default sc) ;; r_slotval 0 i
+     | 4%N => e' <- and_modify e (modf_add sc) ;; i <- or_insert Em debug e' v ;; r_slotval 0 i
+     | 5%N =>
+         x <- entry_key e ;;
+         match x with
+         | inl j => p <- p_ref j ;; ret ([0%N; nn j] ++ r_key (fst p))
+         | inr k' => drop_key Em k' ;; ret (1%N :: r_key k')
+         end
+     | 6%N =>
+         match e with
+         | Occupied i => j <- occ_get i ;; r_slotval 0 j
+         | Vacant k' => drop_key Em k' ;; ret (1%N :: r_key k')
+         end
+     | 7%N =>
+         match e with
+         | Occupied i => j <- occ_get_mut i ;; r <- r_slotval 0 j ;; set_dat j (vdat v) ;; ret r
+         | Vacant k' => ret (1%N :: r_key k')
+         end
+     | 8%N =>
+         match e with
+         | Occupied i => old <- occ_insert i v ;; ret (0%N :: r_val old)
+         | Vacant k' => j <- vac_insert Em debug k' v ;; r_slotval 1 j
+         end
+     | 9%N =>
+         match e with
+         | Occupied i => old <- occ_remove Em debug i ;; ret (0%N :: r_val old)
+         | Vacant k' => drop_key Em k' ;; ret [1%N]
+         end
+     | 10%N =>
+         match e with
+         | Occupied i => p <- occ_remove_entry debug i ;; ret (0%N :: r_pair p)
+         | Vacant k' => ret (1%N :: r_key k')
+         end
+     | _ =>
+         match e with
+         | Occupied i => j <- occ_into_mut i ;; r <- r_slotval 0 j ;; set_dat j (vdat v) ;; ret r
+         | Vacant k' => j <- vac_insert Em debug k' v ;; r_slotval 1 j
+         end
+     end) (fun l => entry_v (cap (self w1)) l (kcls k) chain (vdat v)) w1).
+  { unfold entry_v.
+    destruct chain as [|p]; [apply chV_or_insert; assumption|].
+    repeat (match goal with
+            | |- context [match ?q with xI _ => _ | xO _ => _ | xH => _ end] => is_var q; destruct q
+            end);
+    first [ apply chV_or_insert; assumption
+          | apply chV_or_insert_with; assumption
+          | apply chV_or_insert_with_key; assumption
+          | apply chV_or_default; assumption
+          | apply chV_and_modify; assumption
+          | apply chV_key with (k := k); assumption
+          | apply chV_get with (k := k); assumption
+          | apply chV_get_mut; assumption
+          | apply chV_insert; assumption
+          | apply chV_remove; assumption
+          | apply chV_remove_entry; assumption
+          | apply chV_into_mut; assumption ]. }
+  rewrite Hs1 in Hb.
+  eapply wp_mono; [exact Hb | |]; cbn beta.
+  - intros _ w2 H2. eapply vpost_base; eauto.
+  - intros w2 H2. eapply vpost_base; eauto.
+Qed.
+
+End VEntry.
+
+(* ------------------------------------------------------------------ *)
+(* 9. get_disjoint_mut                                                 *)
+(* ------------------------------------------------------------------ *)
+Lemma disjoint_render_view wd : forall qs j (w : mworld),
+  WF (self w) ->
+  wp (disjoint_render (List.map (fun c => find_idx kcls c (Spec.elems (self w))) qs) wd j)
+     (fun _ => vpost mphi (write_all qs wd j) w) (fun _ => False) w.
+Proof.
+  induction qs as [|c t IH]; intros j w Hw; cbn [List.map disjoint_render write_all].
+  - apply wp_ret. apply vpost_same; [exact Hw | reflexivity | reflexivity].
+  - destruct (find_idx kcls c (Spec.elems (self w))) as [i|] eqn:Hf.
+    + destruct (find_idx_slot kcls _ _ _ Hw Hf) as [Hi [[k0 v0] (Hp & Hsl & _)]].
+      apply wp_bind. eapply wp_p_ref; [exact Hsl|]. apply wp_bind.
+      eapply wp_mono; [apply (set_dat_elems i (wd + nn j) w k0 v0 Hw Hp) | |]; cbn beta; [|tauto].
+      intros _ w1 (Hw1 & Hc1 & He1). apply wp_bind.
+      assert (H1 : vpost mphi (fun l => write l c (wd + N.of_nat j)%N) w w1).
+      { eapply vpost_elems; [exact Hw1 | exact Hc1 | exact He1|]. symmetry.
+        apply (write_at_gen _ _ _ i k0 v0 _ Hf Hp). reflexivity. }
+      assert (Hsame : List.map (fun c0 => find_idx kcls c0 (Spec.elems (self w))) t =
+                      List.map (fun c0 => find_idx kcls c0 (Spec.elems (self w1))) t).
+      { apply map_ext. intros c0. rewrite He1. symmetry.
+        apply (Bulk.find_idx_upd_same kcls c0 _ i _ (k0, v0) Hp). reflexivity. }
+      rewrite Hsame.
+      eapply wp_mono; [apply (IH (S j) w1 Hw1) | |]; cbn beta; [|tauto].
+      intros r w2 H2. apply wp_ret. exact (vpost_trans mphi _ _ w w1 w2 H1 H2).
+    + apply wp_bind.
+      eapply wp_mono; [apply (IH (S j) w Hw) | |]; cbn beta; [|tauto].
+      intros r w2 H2. apply wp_ret.
+      eapply vpost_ext; [|exact H2]. cbn beta. unfold view. rewrite (write_absent _ _ _ Hf). reflexivity.
+Qed.
+
+Lemma qcls_QCls qs : List.map qcls (List.map QCls qs) = qs.
+Proof. rewrite map_map. cbn [qcls]. apply map_id. Qed.
+
+Lemma sets_disjoint_session sc unchecked qs wd (w : mworld) :
+  honest sc -> WF (self w) -> Um (self w) -> (unchecked = true -> NoDup qs) ->
+  sets mphi (disjoint_session sc unchecked qs wd)
+       (fun l => if unchecked || nodupb qs then write_all qs wd 0 l else l) w.
+Proof.
+  intros Hh Hw Hu Hnd. pose proof (env_map_lawful sc Hh) as HLm.
+  unfold sets, disjoint_session. apply wp_bind.
+  assert (Hok : NoDup qs ->
+    forall c : Mm (list (option nat)),
+      wp c (fun r w' => stable w w' /\
+                        r = List.map (fun q => find_idx kcls (qcls q) (Spec.elems (self w))) (List.map QCls qs))
+           (fun _ => False) w ->
+      wp c (fun l w' => wp (disjoint_render l wd 0) (fun _ => vpost mphi (write_all qs wd 0) w)
+                           (vpost mphi (write_all qs wd 0) w) w')
+           (vpost mphi (write_all qs wd 0) w) w).
+  { intros _ c Hc. eapply wp_mono; [exact Hc | |]; cbn beta; [|tauto].
+    intros l w1 [[Hs1 _] ->]. rewrite map_map. cbn [qcls].
+    pose proof (disjoint_render_view wd qs 0 w1) as HR. rewrite Hs1 in HR.
+    eapply wp_mono; [apply HR; exact Hw | |]; cbn beta; [|tauto].
+    intros _ w2 H2. eapply vpost_base; eauto. }
+  destruct unchecked; cbn [orb].
+  - specialize (Hnd eq_refl). apply (Hok Hnd).
+    apply (disjoint_unchecked_lawful (env_map sc) kcls qcls HLm _ w Hw Hu). rewrite qcls_QCls. exact Hnd.
+  - destruct (nodupb qs) eqn:Hb.
+    + apply nodupb_spec in Hb. apply (Hok Hb).
+      apply (disjoint_lawful (env_map sc) kcls qcls HLm _ w Hw Hu). rewrite qcls_QCls. exact Hb.
+    + assert (Hn : ~ NoDup qs) by (intros H; apply nodupb_spec in H; congruence).
+      eapply wp_mono; [apply (disjoint_overlap_panics (env_map sc) kcls qcls HLm (List.map QCls qs) w Hw) | |];
+        cbn beta; [rewrite qcls_QCls; exact Hn | tauto |].
+      intros w1 [Hs1 _]. apply vpost_same; [exact Hw | exact Hs1 | reflexivity].
+Qed.
+
+(* ------------------------------------------------------------------ *)
+(* 10. retain with the scripted closures                               *)
+(* ------------------------------------------------------------------ *)
+Lemma does_op_retain_m debug sc dflt tab : honest sc ->
+  does mphi (retain (env_map sc) debug (pred_m sc dflt tab)) (fun _ l => retain_m dflt tab l).
+Proof.
+  intros Hh. unfold retain_m.
+  apply (does_retain mphi (env_map sc) debug (env_map_lawful sc Hh) (pred_m sc dflt tab)
+           (fun k v => let a := lookup_act (kcls k) tab dflt in
+                       if N.eqb a 0 then (false, v)
+                       else if N.eqb a 1 then (true, v)
+                       else (true, {| vid := vid v; vdat := vdat v + 100 |}))).
+  - intros s k v. unfold pred_m. pose proof (call_tick_honest sc s Hh) as Hb.
+    destruct (call_tick sc s) as [boom s']. cbn [fst] in Hb. subst boom. cbv zeta.
+    destruct (N.eqb (lookup_act (kcls k) tab dflt) 0); [reflexivity|].
+    destruct (N.eqb (lookup_act (kcls k) tab dflt) 1); reflexivity.
+  - intros k v. unfold mphi. cbn [fst snd]. cbv zeta.
+    destruct (N.eqb (lookup_act (kcls k) tab dflt) 0); [reflexivity|].
+    destruct (N.eqb (lookup_act (kcls k) tab dflt) 1); reflexivity.
+Qed.
+
+Lemma does_op_retain_s debug sc dflt tab : honest sc ->
+  does sphi (s_retain (env_set sc) debug (pred_s sc dflt tab)) (fun _ l => retain_s dflt tab l).
+Proof.
+  intros Hh. unfold retain_s, s_retain.
+  apply (does_retain sphi (env_set sc) debug (env_set_lawful sc Hh) _
+           (fun k (_ : unit) => (negb (N.eqb (lookup_act (kcls k) tab dflt) 0), tt))).
+  - intros s k []. unfold pred_s. pose proof (call_tick_honest sc s Hh) as Hb.
+    destruct (call_tick sc s) as [boom s']. cbn [fst] in Hb. subst boom. reflexivity.
+  - intros k v. reflexivity.
+Qed.
+
+(* ------------------------------------------------------------------ *)
+(* 11. clone, from_iter, serde                                         *)
+(* ------------------------------------------------------------------ *)
+Lemma sets_clone_m sc (src : map key vobj) (w : mworld) :
+  honest sc -> WF src -> WF (self w) -> cap src = cap (self w) ->
+  sets mphi (replace_with (env_map sc) (clone_from_src (env_map sc) src) []) (fun _ => mview src) w.
+Proof.
+  intros Hh Hsrc Hw Hc. apply replace_with_sets; [exact Hw|]. intros w0 Hs0.
+  eapply wp_mono; [apply (clone_honest_map sc src w0 Hh Hsrc) | |]; cbn beta.
+  - rewrite Hs0. apply WF_new.
+  - rewrite Hs0. reflexivity.
+  - rewrite Hs0, cap_new. congruence.
+  - intros _ w' (H1 & H2 & _ & H4). split; [exact H1|]. split; [congruence|].
+    unfold view, mview. apply (Forall2_map_eq mphi).
+    eapply Forall2_impl'; [|exact H4]. cbn beta. intros p p' [Hk Hv]. apply N.eqb_eq in Hv.
+    unfold mphi. rewrite Hk, Hv. reflexivity.
+  - tauto.
+Qed.
+
+Lemma sets_clone_s sc (src : map key unit) (w : sworld) :
+  honest sc -> WF src -> WF (self w) -> cap src = cap (self w) ->
+  sets sphi (replace_with (env_set sc) (clone_from_src (env_set sc) src) []) (fun _ => sview src) w.
+Proof.
+  intros Hh Hsrc Hw Hc. apply replace_with_sets; [exact Hw|]. intros w0 Hs0.
+  eapply wp_mono;
+    [apply (EqClone.clone_lawful (env_set sc) kcls (fun _ _ : unit => true)
+              (env_set_cloneK sc Hh) (env_set_cloneV sc) src w0 Hsrc) | |]; cbn beta.
+  - rewrite Hs0. apply WF_new.
+  - rewrite Hs0. reflexivity.
+  - rewrite Hs0, cap_new. congruence.
+  - intros _ w' (H1 & H2 & _ & H4 & _). split; [exact H1|]. split; [congruence|].
+    unfold view, sview. apply (Forall2_map_eq sphi).
+    eapply Forall2_impl'; [|exact H4]. cbn beta. intros p p' [Hk _]. exact Hk.
+  - tauto.
+Qed.
+
+Lemma nx_ok sc (arr : bool) : honest sc -> forall s, fst ((if arr then nx_none else nx_cb sc) s) <> Boom.
+Proof.
+  intros Hh s. destruct arr; [cbn; discriminate|]. unfold nx_cb.
+  pose proof (call_tick_honest sc s Hh) as Hb. destruct (call_tick sc s) as [boom s'].
+  cbn [fst] in *. subst boom. discriminate.
+Qed.
+
+Lemma sets_from_iter_m debug sc (arr : bool) items (w : mworld) :
+  honest sc -> WF (self w) ->
+  sets mphi (replace_with (env_map sc) (from_iter (env_map sc) debug (if arr then nx_none else nx_cb sc) items) [])
+       (fun l => match fill (@fst N N) (cap (self w)) [] (pairs_v items) with Some l' => l' | None => l end) w.
+Proof.
+  intros Hh Hw. apply replace_with_sets; [exact Hw|]. intros w0 Hs0.
+  pose proof (map_l_extend mphi fst mphi_cl mphi_key (cap (self w)) items []) as HE.
+  cbn [List.map] in HE. change (List.map mphi items) with (pairs_v items) in HE.
+  eapply wp_mono;
+    [apply (from_iter_lawful (env_map sc) debug kcls qcls (env_map_lawful sc Hh) _ items w0 (nx_ok sc arr Hh)) | |];
+    cbn beta.
+  - rewrite Hs0. apply WF_new.
+  - rewrite Hs0. reflexivity.
+  - rewrite Hs0, cap_new. intros _ w' (H1 & H2 & H3). split; [exact H1|]. split; [exact H2|].
+    rewrite H3 in HE. cbn [option_map] in HE. rewrite <- HE. reflexivity.
+  - rewrite Hs0, cap_new. intros _ H3. rewrite H3 in HE. cbn [option_map] in HE. rewrite <- HE. reflexivity.
+Qed.
+
+Lemma sets_from_iter_s debug sc (arr : bool) items (w : sworld) :
+  honest sc -> WF (self w) ->
+  sets sphi (replace_with (env_set sc) (s_from_iter (env_set sc) debug (if arr then nx_none else nx_cb sc) items) [])
+       (fun l => match fill (fun c => c) (cap (self w)) [] (List.map kcls items) with Some l' => l' | None => l end) w.
+Proof.
+  intros Hh Hw. apply replace_with_sets; [exact Hw|]. intros w0 Hs0.
+  pose proof (map_l_extend sphi (fun c => c) sphi_cl sphi_key (cap (self w))
+                (List.map (fun k => (k, tt)) items) []) as HE.
+  cbn [List.map] in HE. rewrite map_map in HE.
+  change (List.map (fun x : key => sphi (x, tt)) items) with (List.map kcls items) in HE.
+  eapply wp_mono;
+    [apply (s_from_iter_lawful (env_set sc) debug kcls qcls (env_set_lawful sc Hh) _ items w0 (nx_ok sc arr Hh)) | |];
+    cbn beta.
+  - rewrite Hs0. apply WF_new.
+  - rewrite Hs0. reflexivity.
+  - rewrite Hs0, cap_new. intros _ w' (H1 & H2 & H3). split; [exact H1|]. split; [exact H2|].
+    rewrite H3 in HE. cbn [option_map] in HE. rewrite <- HE. reflexivity.
+  - rewrite Hs0, cap_new. intros _ H3. rewrite H3 in HE. cbn [option_map] in HE. rewrite <- HE. reflexivity.
+Qed.
+
+(* ---- serde ---- *)
+Lemma Forall2_map_eq2 {A B C} (f : A -> C) (g : B -> C) (l : list A) (l' : list B) :
+  Forall2 (fun a b => g b = f a) l l' -> List.map g l' = List.map f l.
+Proof. induction 1 as [|a b l l' H _ IH]; [reflexivity|]. cbn [List.map]. rewrite H, IH. reflexivity. Qed.
+
+Lemma sets_serde_m debug sc (src : map key vobj) body (w : mworld) :
+  honest sc -> WF src -> Um src -> WF (self w) ->
+  sets mphi (replace_with (env_map sc) (finally_drop (env_map sc) (visit_map debug sc (Exec.elems src))) body)
+       (fun l => if length (mview src) <=? cap (self w) then mview src else l) w.
+Proof.
+  intros Hh Hsrc Husrc Hw. rewrite exec_elems_eq. apply replace_with_sets; [exact Hw|]. intros w0 Hs0.
+  assert (Hlen : length (mview src) = len src).
+  { unfold mview. rewrite map_length. apply elems_length. exact Hsrc. }
+  destruct (Nat.leb_spec (length (mview src)) (cap (self w))) as [Hle|Hgt].
+  - apply EqClone.wp_finally_drop_nopanic.
+    eapply wp_mono; [apply (visit_map_spec debug sc (Spec.elems src) w0 Hh) | |]; cbn beta.
+    + rewrite Hs0. apply WF_new.
+    + rewrite Hs0, elems_new. constructor.
+    + exact Husrc.
+    + intros p _. rewrite Hs0, elems_new. reflexivity.
+    + rewrite Hs0, cap_new. cbn [len new_map]. rewrite (elems_length _ Hsrc). lia.
+    + intros _ w' (Hw' & Hc' & (fresh & He & Hf) & _). rewrite Hs0, elems_new in He. cbn [app] in He.
+      split; [exact Hw'|]. split; [rewrite Hc', Hs0; apply cap_new|].
+      unfold view, mview. rewrite He. apply (Forall2_map_eq2 mphi mphi).
+      eapply Forall2_impl'; [|exact Hf]. cbn beta. intros p p' [Hk Hv]. unfold mphi. rewrite Hk, Hv. reflexivity.
+    + tauto.
+  - apply Bulk.wp_finally_drop_prop.
+    eapply wp_mono; [apply (visit_map_overflow debug sc (Spec.elems src) w0 Hh) | |]; cbn beta.
+    + rewrite Hs0. apply WF_new.
+    + exact Husrc.
+    + intros p _. rewrite Hs0, elems_new. reflexivity.
+    + rewrite Hs0, cap_new. cbn [len new_map]. rewrite (elems_length _ Hsrc). lia.
+    + intros _ w' [].
+    + intros w' H. split; [exact H | reflexivity].
+Qed.
+
+Lemma visit_seq_overflow debug sc items (w : sworld) :
+  honest sc -> WF (self w) ->
+  NoDup (List.map kcls items) ->
+  (forall k, In k items -> find_idx kcls (kcls k) (Spec.elems (self w)) = None) ->
+  cap (self w) < len (self w) + length items ->
+  wp (visit_seq debug sc items) (fun _ _ => False) (fun w' => WF (self w')) w.
+Proof.
+  intros Hh. pose proof (env_set_lawful sc Hh) as HL.
+  revert w; induction items as [|k rest IH]; intros w Hw Hnd Habs Hcap.
+  - cbn [length] in Hcap. pose proof (WF_len_le_cap _ Hw). lia.
+  - rewrite visit_seq_cons. apply wp_bind. apply wp_get_next_id. apply wp_bind. apply wp_bump_id.
+    set (w1 := with_cb w _).
+    set (k' := {| kid := next_id (cb w); kcls := kcls k |}).
+    assert (Hf : find_idx kcls (kcls k') (Spec.elems (self w1)) = None)
+      by exact (Habs k (or_introl eq_refl)).
+    cbn [List.map] in Hnd. apply NoDup_cons_iff in Hnd. destruct Hnd as [Hnk Hnd].
+    cbn [length] in Hcap.
+    apply wp_bind. unfold s_insert. apply wp_bind.
+    eapply wp_mono; [apply (insert_lawful (env_set sc) debug kcls qcls HL k' tt w1 Hw) | |]; cbn beta.
+    + intros r w2 (Hw2 & Hc2 & He2 & Hr & Hlg).
+      unfold l_insert in He2, Hr, Hlg. rewrite Hf in He2, Hr, Hlg. cbn [fst snd option_map] in He2, Hr, Hlg.
+      subst r. apply wp_ret.
+      assert (Hs1 : self w1 = self w) by reflexivity. rewrite Hs1 in *.
+      assert (Hl2 : len (self w2) = S (len (self w))).
+      { rewrite <- (elems_length _ Hw2), He2, app_length, (elems_length _ Hw). cbn [length]. lia. }
+      apply (IH w2 Hw2).
+      * exact Hnd.
+      * intros p Hp. rewrite He2. apply find_idx_snoc_None; [apply Habs; right; exact Hp|].
+        cbn [fst]. change (kcls k') with (kcls k). intros Heq. apply Hnk. rewrite Heq.
+        apply in_map. exact Hp.
+      * rewrite Hl2, Hc2. lia.
+    + intros w2 (Hs2 & _). rewrite Hs2. exact Hw.
+Qed.
+
+Lemma sets_serde_s debug sc (src : map key unit) body (w : sworld) :
+  honest sc -> WF src -> Um src -> WF (self w) ->
+  sets sphi (replace_with (env_set sc)
+               (finally_drop (env_set sc) (visit_seq debug sc (List.map fst (Exec.elems src)))) body)
+       (fun l => if length (sview src) <=? cap (self w) then sview src else l) w.
+Proof.
+  intros Hh Hsrc Husrc Hw. rewrite exec_elems_eq. apply replace_with_sets; [exact Hw|]. intros w0 Hs0.
+  assert (Hlen : length (sview src) = len src).
+  { unfold sview. rewrite map_length. apply elems_length. exact Hsrc. }
+  assert (Hnd : NoDup (List.map kcls (List.map fst (Spec.elems src)))) by (rewrite map_map; exact Husrc).
+  destruct (Nat.leb_spec (length (sview src)) (cap (self w))) as [Hle|Hgt].
+  - apply EqClone.wp_finally_drop_nopanic.
+    eapply wp_mono; [apply (visit_seq_spec debug sc (List.map fst (Spec.elems src)) w0 Hh) | |]; cbn beta.
+    + rewrite Hs0. apply WF_new.
+    + rewrite Hs0, elems_new. constructor.
+    + exact Hnd.
+    + intros p _. rewrite Hs0, elems_new. reflexivity.
+    + rewrite Hs0, cap_new. cbn [len new_map]. rewrite map_length, (elems_length _ Hsrc). lia.
+    + intros _ w' (Hw' & Hc' & (fresh & He & Hf) & _). rewrite Hs0, elems_new in He. cbn [app] in He.
+      split; [exact Hw'|]. split; [rewrite Hc', Hs0; apply cap_new|].
+      unfold view, sview. rewrite He.
+      rewrite (Forall2_map_eq2 kcls sphi _ _ Hf). apply map_map.
+    + tauto.
+  - apply Bulk.wp_finally_drop_prop.
+    eapply wp_mono; [apply (visit_seq_overflow debug sc (List.map fst (Spec.elems src)) w0 Hh) | |]; cbn beta.
+    + rewrite Hs0. apply WF_new.
+    + exact Hnd.
+    + intros p _. rewrite Hs0, elems_new. reflexivity.
+    + rewrite Hs0, cap_new. cbn [len new_map]. rewrite map_length, (elems_length _ Hsrc). lia.
+    + intros _ w' [].
+    + intros w' H. split; [exact H | reflexivity].
+Qed.
+
+(* ------------------------------------------------------------------ *)
+(* 12. Set operations                                                  *)
+(* ------------------------------------------------------------------ *)
+Lemma does_ext {V X} (phi : key * V -> X) {A} (c : M key V cstate A) f g :
+  (forall n l, f n l = g n l) -> does phi c f -> does phi c g.
+Proof. intros Hfg Hc w Hw Hu. eapply sets_ext; [apply Hfg | apply Hc; assumption]. Qed.
+
+Section VSet.
+Context (debug : bool) (sc : script) (Hh : honest sc).
+Notation Es := (env_set sc).
+Let HLs : Lawful Es kcls qcls := env_set_lawful sc Hh.
+
+Lemma does_s_insert k :
+  does sphi (s_insert Es debug k) (fun n l => add_new (fun c => c) n l (kcls k)).
+Proof.
+  unfold s_insert. apply does_then_ret.
+  eapply does_ext; [|apply (does_insert sphi (fun c => c) sphi_cl sphi_key Es debug HLs k tt)].
+  intros n l. cbn beta. apply put_id.
+Qed.
+
+Lemma does_s_replace k :
+  does sphi (s_replace Es debug k) (fun n l => add_new (fun c => c) n l (kcls k)).
+Proof.
+  intros w Hw _.
+  eapply wp_mono; [apply (s_replace_lawful Es debug kcls qcls HLs k w Hw) | |]; cbn beta.
+  - intros r w' (Hw' & Hc' & _ & _ & He & Hfull).
+    eapply vpost_elems; [exact Hw' | exact Hc' | exact He|].
+    destruct (find_idx kcls (kcls k) (Spec.elems (self w))) as [i|] eqn:Hf.
+    + destruct (find_idx_inv kcls _ _ _ Hf) as [[p [Hp Hcp]] _].
+      rewrite (Bulk.map_upd_same sphi _ i (k, tt) p Hp) by (unfold sphi; cbn [fst]; congruence).
+      symmetry. apply (add_new_present sphi (fun c => c) sphi_cl _ _ k tt i Hf).
+    + symmetry. apply (add_new_absent sphi (fun c => c) sphi_cl _ _ k tt Hf).
+      rewrite (elems_length _ Hw). apply Hfull. reflexivity.
+  - intros w' (Hs & _ & Hf & Hlen). apply vpost_same; [exact Hw | exact Hs|].
+    apply (add_new_full sphi (fun c => c) sphi_cl _ _ k tt Hf). rewrite (elems_length _ Hw). lia.
+Qed.
+
+Lemma does_s_remove q : does sphi (s_remove Es debug q) (fun _ l => del (fun c => c) l (qcls q)).
+Proof. unfold s_remove. apply does_then_ret. apply (does_remove sphi (fun c => c) sphi_cl Es debug HLs). Qed.
+Lemma does_s_take q : does sphi (s_take Es debug q) (fun _ l => del (fun c => c) l (qcls q)).
+Proof. unfold s_take. apply does_then_ret. apply (does_remove_entry sphi (fun c => c) sphi_cl Es debug HLs). Qed.
+Lemma does_s_clear : does sphi (s_clear Es) (fun _ _ => []).
+Proof. unfold s_clear. apply does_clear. Qed.
+
+(* extend: the first overflowing insertion stops the loop *)
+Lemma s_extend_view nx : (forall s, fst (nx s) <> Boom) -> forall items (w : sworld),
+  WF (self w) ->
+  sets sphi (s_extend_loop Es debug nx items)
+       (fun l => extend_stop (fun c => c) (cap (self w)) l (List.map kcls items)) w.
+Proof.
+  intros Hnx. induction items as [|k rest IH]; intros w Hw; cbn [s_extend_loop List.map extend_stop].
+  - eapply wp_mono; [apply (call_next_lawful nx w Hnx) | |]; cbn beta; [|tauto].
+    intros _ w1 [Hs1 _]. apply vpost_same; [exact Hw | exact Hs1 | reflexivity].
+  - apply wp_bind. apply wp_on_unwind_nopanic.
+    eapply wp_mono; [apply (call_next_lawful nx w Hnx) | |]; cbn beta; [|tauto].
+    intros _ w1 [Hs1 _].
+    assert (Hw1 : WF (self w1)) by (rewrite Hs1; exact Hw).
+    apply wp_bind. apply wp_on_unwind_frame; [apply frame_unwind_pairs|].
+    apply wp_bind.
+    eapply wp_mono; [apply (s_insert_lawful Es debug kcls qcls HLs k w1 Hw1) | |]; cbn beta; rewrite Hs1.
+    + intros r w2 (Hw2 & Hc2 & _ & He2 & Hfull). apply wp_ret.
+      pose proof (IH w2 Hw2) as HI. rewrite Hc2 in HI.
+      eapply wp_mono; [exact HI | |]; cbn beta.
+      * intros _ w3 (Hw3 & Hc3 & Hv3). split; [exact Hw3|]. split; [congruence|].
+        rewrite Hv3. unfold view. rewrite He2, (pos_map sphi (fun c => c) sphi_cl).
+        destruct (find_idx kcls (kcls k) (Spec.elems (self w))) as [i|] eqn:Hf; [reflexivity|].
+        rewrite map_length, (elems_length _ Hw). specialize (Hfull eq_refl).
+        destruct (Nat.ltb_spec (len (self w)) (cap (self w))); [|lia].
+        rewrite map_app. reflexivity.
+      * intros w3 (Hw3 & Hc3 & Hv3). split; [exact Hw3|]. split; [congruence|].
+        rewrite Hv3. unfold view. rewrite He2, (pos_map sphi (fun c => c) sphi_cl).
+        destruct (find_idx kcls (kcls k) (Spec.elems (self w))) as [i|] eqn:Hf; [reflexivity|].
+        rewrite map_length, (elems_length _ Hw). specialize (Hfull eq_refl).
+        destruct (Nat.ltb_spec (len (self w)) (cap (self w))); [|lia].
+        rewrite map_app. reflexivity.
+    + intros w2 (Hs2 & _ & Hf & Hlen) w3 Hs3. apply vpost_same; [exact Hw | congruence|].
+      unfold view. rewrite (pos_map sphi (fun c => c) sphi_cl), Hf, map_length, (elems_length _ Hw).
+      destruct (Nat.ltb_spec (len (self w)) (cap (self w))); [lia | reflexivity].
+Qed.
+
+End VSet.
+
+(* ------------------------------------------------------------------ *)
+(* 13. the history-level theorems                                      *)
+(* ------------------------------------------------------------------ *)
+Lemma run_m_stays_at r (c : Mm (list N)) x :
+  WFx x ->
+  wp c (fun _ w' => self w' = self (w_init (xcb x) (get_m r x)))
+       (fun w' => self w' = self (w_init (xcb x) (get_m r x))) (w_init (xcb x) (get_m r x)) ->
+  view_x (snd (run_m r c x)) = view_x x.
+Proof.
+  intros Hx Hc. transitivity (on_m r (fun _ l => l) (view_x x)); [|apply on_m_id]. apply run_m_on.
+  apply stays_at_sets; [apply WFx_get_m; exact Hx | exact Hc].
+Qed.
+Lemma run_s_stays_at r (c : Ms (list N)) x :
+  WFx x ->
+  wp c (fun _ w' => self w' = self (w_init (xcb x) (get_s r x)))
+       (fun w' => self w' = self (w_init (xcb x) (get_s r x))) (w_init (xcb x) (get_s r x)) ->
+  view_x (snd (run_s r c x)) = view_x x.
+Proof.
+  intros Hx Hc. transitivity (on_s r (fun _ l => l) (view_x x)); [|apply on_s_id]. apply run_s_on.
+  apply stays_at_sets; [apply WFx_get_s; exact Hx | exact Hc].
+Qed.
+Lemma run_m_stays r (c : Mm (list N)) x : WFx x -> stays c -> view_x (snd (run_m r c x)) = view_x x.
+Proof. intros Hx Hc. apply run_m_stays_at; [exact Hx|]. apply Hc. apply WFx_get_m. exact Hx. Qed.
+Lemma run_s_stays r (c : Ms (list N)) x : WFx x -> stays c -> view_x (snd (run_s r c x)) = view_x x.
+Proof. intros Hx Hc. apply run_s_stays_at; [exact Hx|]. apply Hc. apply WFx_get_s. exact Hx. Qed.
+
+(* a session that empties the register *)
+Lemma run_m_empty r (c : Mm (list N)) x :
+  WFx x ->
+  wp c (fun _ => zpost (w_init (xcb x) (get_m r x))) (zpost (w_init (xcb x) (get_m r x)))
+     (w_init (xcb x) (get_m r x)) ->
+  view_x (snd (run_m r c x)) = on_m r (fun _ _ => []) (view_x x).
+Proof. intros Hx Hc. apply run_m_on. apply zpost_at_sets. exact Hc. Qed.
+Lemma run_s_empty r (c : Ms (list N)) x :
+  WFx x ->
+  wp c (fun _ => zpost (w_init (xcb x) (get_s r x))) (zpost (w_init (xcb x) (get_s r x)))
+     (w_init (xcb x) (get_s r x)) ->
+  view_x (snd (run_s r c x)) = on_s r (fun _ _ => []) (view_x x).
+Proof. intros Hx Hc. apply run_s_on. apply zpost_at_sets. exact Hc. Qed.
+
+Lemma put_mv_self r x : put_mv r (mview (get_m r x)) (view_x x) = view_x x.
+Proof. rewrite <- get_mv_view. apply put_mv_same. Qed.
+Lemma put_sv_self r x : put_sv r (sview (get_s r x)) (view_x x) = view_x x.
+Proof. rewrite <- get_sv_view. apply put_sv_same. Qed.
+
+Lemma sets_with_capacity {V X} (phi : key * V -> X) (E : env key V query cstate) c (w : world key V cstate) :
+  WF (self w) ->
+  sets phi (n <- get_cap ;; if with_capacity_ok c n then replace_with E (ret tt) [] else panic)
+       (fun l => if c =? cap (self w) then [] else l) w.
+Proof.
+  intros Hw. apply wp_bind. apply wp_get_cap. unfold with_capacity_ok.
+  destruct (c =? cap (self w)).
+  - apply zpost_at_sets. apply replace_empty_Z. exact Hw.
+  - apply wp_panic. apply vpost_same; [exact Hw | reflexivity | reflexivity].
+Qed.
+
+Theorem step_view debug sc o x :
+  honest sc -> WFx x -> UniqX x -> contract2 debug o x ->
+  view_x (snd (step debug sc o x)) = vstep o (view_x x).
+Proof.
+  intros Hh Hx Hu [Hc Hc2]. assert (Hd : xdead x = false) by apply Hx.
+  pose proof (env_map_lawful sc Hh) as HLm. pose proof (env_set_lawful sc Hh) as HLs.
+  unfold step. cbv beta zeta. rewrite Hd.
+  destruct o; cbn [vstep].
+  - (* OInsert *) apply run_m_does; [exact Hx | exact Hu|]. apply does_then_ret.
+    apply (does_insert mphi fst mphi_cl mphi_key (env_map sc) debug HLm k v).
+  - (* OInsertKV *) apply run_m_does; [exact Hx | exact Hu|]. apply does_then_ret.
+    apply (does_insert_key_value mphi fst mphi_cl mphi_key (env_map sc) debug HLm k v).
+  - (* OCheckedInsert *) apply run_m_does; [exact Hx | exact Hu|]. apply does_then_ret.
+    apply (does_checked_insert mphi fst mphi_cl mphi_key (env_map sc) debug HLm k v).
+  - (* OInsertUnchecked *) apply run_m_on. cbn [contract_ok] in Hc.
+    apply sets_bind_frame; [|intros; apply frame_ret].
+    apply (sets_insert_unchecked mphi fst mphi_cl mphi_key (env_map sc) debug HLm k v
+             (w_init (xcb x) (get_m r x)));
+      [apply WFx_get_m; exact Hx | apply UniqX_get_m; exact Hu | exact Hc].
+  - (* OGet *) apply run_m_stays; [exact Hx|]. apply (stays_scan_opt_slot (env_map sc)).
+  - (* OGetMut *) apply run_m_does; [exact Hx | exact Hu|]. apply does_op_get_mut. exact Hh.
+  - (* OGetKV *) apply run_m_stays; [exact Hx|]. apply (stays_scan_opt_slot (env_map sc)).
+  - (* OContains *) apply run_m_stays; [exact Hx|]. unfold contains_key.
+    apply stays_bind; [|intros; apply stays_ret].
+    apply stays_bind; [|intros; apply stays_ret].
+    apply (stays_scan (env_map sc)). intros; apply frame_test_q.
+  - (* OIndex *) apply run_m_stays; [exact Hx|]. apply stays_op_index.
+  - (* OIndexMut *) apply run_m_does; [exact Hx | exact Hu|]. apply does_op_index_mut. exact Hh.
+  - (* ORemove *) apply run_m_does; [exact Hx | exact Hu|]. apply does_then_ret.
+    apply (does_remove mphi fst mphi_cl (env_map sc) debug HLm).
+  - (* ORemoveEntry *) apply run_m_does; [exact Hx | exact Hu|]. apply does_then_ret.
+    apply (does_remove_entry mphi fst mphi_cl (env_map sc) debug HLm).
+  - (* ORetain *) apply run_m_does; [exact Hx | exact Hu|].
+    apply does_bind_frame; [|intros; apply frame_ret]. apply does_op_retain_m. exact Hh.
+  - (* OClear *) apply run_m_does; [exact Hx | exact Hu|].
+    apply does_bind_frame; [|intros; apply frame_ret]. apply does_clear.
+  - (* ODrain *) apply run_m_empty; [exact Hx|]. apply drain_session_Z. apply WFx_get_m. exact Hx.
+  - (* OWithCapacity *) apply run_m_on. apply sets_with_capacity. apply WFx_get_m. exact Hx.
+  - (* OIter *) apply run_m_does; [exact Hx | exact Hu|]. apply does_iter_session.
+  - (* OIntoIter *) apply run_m_empty; [exact Hx|]. apply op_into_iter_Z. apply WFx_get_m. exact Hx.
+  - (* OEntry *) apply run_m_does; [exact Hx | exact Hu|]. apply does_entry_chain. exact Hh.
+  - (* ODisjoint *) apply run_m_on.
+    apply sets_disjoint_session; [exact Hh | apply WFx_get_m; exact Hx | apply UniqX_get_m; exact Hu|].
+    intros ->. exact Hc2.
+  - (* OClone *) rewrite !get_mc_view, get_mv_view.
+    destruct (Nat.eqb_spec (cap (get_m r x)) (cap (get_m r' x))) as [Heq|Hne]; [|reflexivity].
+    apply (run_m_sets r' _ x (fun _ => mview (get_m r x))).
+    apply sets_clone_m; [exact Hh | apply WFx_get_m; exact Hx | apply WFx_get_m; exact Hx | exact Heq].
+  - (* OEq *) apply run_m_stays_at; [exact Hx|]. apply op_eq_stays; apply WFx_get_m; exact Hx.
+  - (* OFromIter *) apply run_m_on. apply sets_from_iter_m; [exact Hh | apply WFx_get_m; exact Hx].
+  - (* OFormat *) apply run_m_stays; [exact Hx|]. apply stays_format_m.
+  - (* OSerde *) rewrite get_mc_view, get_mv_view.
+    rewrite (run_m_sets r' _ x
+               (fun l => if length (mview (get_m r x)) <=? cap (get_m r' x) then mview (get_m r x) else l)).
+    + destruct (length (mview (get_m r x)) <=? cap (get_m r' x)); [reflexivity | apply put_mv_self].
+    + apply sets_serde_m; [exact Hh | apply WFx_get_m; exact Hx | apply UniqX_get_m; exact Hu
+                           | apply WFx_get_m; exact Hx].
+  - (* SInsert *) apply run_s_does; [exact Hx | exact Hu|]. apply does_then_ret. apply does_s_insert. exact Hh.
+  - (* SReplace *) apply run_s_does; [exact Hx | exact Hu|]. apply does_then_ret. apply does_s_replace. exact Hh.
+  - (* SContains *) apply run_s_stays; [exact Hx|]. unfold s_contains, contains_key.
+    apply stays_bind; [|intros; apply stays_ret].
+    apply stays_bind; [|intros; apply stays_ret].
+    apply (stays_scan (env_set sc)). intros; apply frame_test_q.
+  - (* SGet *) apply run_s_stays; [exact Hx|]. apply (stays_scan_opt_slot (env_set sc)).
+  - (* SRemove *) apply run_s_does; [exact Hx | exact Hu|]. apply does_then_ret. apply does_s_remove. exact Hh.
+  - (* STake *) apply run_s_does; [exact Hx | exact Hu|]. apply does_then_ret. apply does_s_take. exact Hh.
+  - (* SRetain *) apply run_s_does; [exact Hx | exact Hu|].
+    apply does_bind_frame; [|intros; apply frame_ret]. apply does_op_retain_s. exact Hh.
+  - (* SClear *) apply run_s_does; [exact Hx | exact Hu|].
+    apply does_bind_frame; [|intros; apply frame_ret]. apply does_s_clear.
+  - (* SDrain *) apply run_s_empty; [exact Hx|]. apply drain_session_Z. apply WFx_get_s. exact Hx.
+  - (* SExtend *) apply run_s_on. unfold s_extend.
+    apply sets_bind_frame; [|intros; apply frame_ret].
+    apply (s_extend_view debug sc Hh (nx_cb sc) (nx_ok sc false Hh) items (w_init (xcb x) (get_s r x))).
+    apply WFx_get_s. exact Hx.
+  - (* SIter *) apply run_s_stays; [exact Hx|]. apply stays_set_iter_session.
+  - (* SIntoIter *) apply run_s_empty; [exact Hx|]. apply op_s_into_iter_Z. apply WFx_get_s. exact Hx.
+  - (* SClone *) rewrite !get_sc_view, get_sv_view.
+    destruct (Nat.eqb_spec (cap (get_s r x)) (cap (get_s r' x))) as [Heq|Hne]; [|reflexivity].
+    apply (run_s_sets r' _ x (fun _ => sview (get_s r x))).
+    apply sets_clone_s; [exact Hh | apply WFx_get_s; exact Hx | apply WFx_get_s; exact Hx | exact Heq].
+  - (* SEq *) apply run_s_stays_at; [exact Hx|]. apply op_eq_stays; apply WFx_get_s; exact Hx.
+  - (* SFromIter *) apply run_s_on. apply sets_from_iter_s; [exact Hh | apply WFx_get_s; exact Hx].
+  - (* SAlgebra *) apply run_s_stays_at; [exact Hx|]. apply alg_session_frame; apply WFx_get_s; exact Hx.
+  - (* SPred *) apply run_s_stays_at; [exact Hx|]. apply op_pred_stays; apply WFx_get_s; exact Hx.
+  - (* SSub *) apply run_s_stays_at; [exact Hx|]. apply op_sub_stays; apply WFx_get_s; exact Hx.
+  - (* SFormat *) apply run_s_stays; [exact Hx|]. apply stays_format_s.
+  - (* SSerde *) rewrite get_sc_view, get_sv_view.
+    rewrite (run_s_sets r' _ x
+               (fun l => if length (sview (get_s r x)) <=? cap (get_s r' x) then sview (get_s r x) else l)).
+    + destruct (length (sview (get_s r x)) <=? cap (get_s r' x)); [reflexivity | apply put_sv_self].
+    + apply sets_serde_s; [exact Hh | apply WFx_get_s; exact Hx | apply UniqX_get_s; exact Hu
+                           | apply WFx_get_s; exact Hx].
+  - (* OCloneFrom *) rewrite !get_mc_view, get_mv_view.
+    destruct (Nat.eqb_spec (cap (get_m r x)) (cap (get_m r' x))) as [Heq|Hne]; [|reflexivity].
+    apply (run_m_sets r' _ x (fun _ => mview (get_m r x))).
+    apply sets_clone_m; [exact Hh | apply WFx_get_m; exact Hx | apply WFx_get_m; exact Hx | exact Heq].
+  - (* SCloneFrom *) rewrite !get_sc_view, get_sv_view.
+    destruct (Nat.eqb_spec (cap (get_s r x)) (cap (get_s r' x))) as [Heq|Hne]; [|reflexivity].
+    apply (run_s_sets r' _ x (fun _ => sview (get_s r x))).
+    apply sets_clone_s; [exact Hh | apply WFx_get_s; exact Hx | apply WFx_get_s; exact Hx | exact Heq].
+  - (* ODefault *) apply run_m_empty; [exact Hx|]. apply replace_empty_Z. apply WFx_get_m. exact Hx.
+  - (* SDefault *) apply run_s_empty; [exact Hx|]. apply replace_empty_Z. apply WFx_get_s. exact Hx.
+  - (* OIterNth *) apply run_m_stays; [exact Hx|]. apply stays_iter_nth_session.
+  - (* ODrainNth *) apply run_m_empty; [exact Hx|]. apply drain_nth_session_Z. apply WFx_get_m. exact Hx.
+  - (* OIntoNth *) apply run_m_empty; [exact Hx|].
+    apply op_into_nth_Z; [intros p; apply frame_into_steps_item | intros p; apply frame_into_rest
+                          | apply WFx_get_m; exact Hx].
+  - (* SIterNth *) apply run_s_stays; [exact Hx|]. apply stays_iter_nth_session.
+  - (* SDrainNth *) apply run_s_empty; [exact Hx|]. apply drain_nth_session_Z. apply WFx_get_s. exact Hx.
+  - (* SIntoNth *) apply run_s_empty; [exact Hx|].
+    apply op_into_nth_Z; [intros p; apply frame_ret | intros p; apply frame_drop_key
+                          | apply WFx_get_s; exact Hx].
+  - (* OBad *) reflexivity.
+Qed.
+
+Theorem run_view debug sc ops x :
+  honest sc -> WFx x -> UniqX x -> Forall safe_op ops ->
+  Forall (fun o => match o with ODisjoint _ true qs _ => NoDup qs | _ => True end) ops ->
+  view_x (run_final debug sc ops x) = fold_left (fun vw o => vstep o vw) ops (view_x x).
+Proof.
+  intros Hh. revert x. induction ops as [|o t IH]; intros x Hx Hu Hs Hd; cbn [run_final fold_left]; [reflexivity|].
+  inversion Hs as [|o' t' Ho Ht]; subst. inversion Hd as [|o'' t'' Hdo Hdt]; subst.
+  pose proof (safe_op_contract debug o x Ho) as Hc.
+  rewrite IH; [|apply (proj1 (step_safe debug sc o x Hx Hc)) | apply step_uniq; assumption | exact Ht | exact Hdt].
+  f_equal. apply step_view; [exact Hh | exact Hx | exact Hu | split; [exact Hc | exact Hdo]].
+Qed.
+
+Lemma view_x_init n0 n1 n2 n3 :
+  view_x (init_world n0 n1 n2 n3) =
+  {| v0 := []; v1 := []; u2 := []; u3 := [];
+     c0 := nat_of n0; c1 := nat_of n1; c2 := nat_of n2; c3 := nat_of n3 |}.
+Proof.
+  unfold view_x, init_world. cbn [xm0 xm1 xs0 xs1]. rewrite !cap_new. reflexivity.
+Qed.
+
+Theorem run_view_init debug sc ops n0 n1 n2 n3 :
+  honest sc -> Forall safe_op ops ->
+  Forall (fun o => match o with ODisjoint _ true qs _ => NoDup qs | _ => True end) ops ->
+  view_x (run_final debug sc ops (init_world n0 n1 n2 n3)) =
+  fold_left (fun vw o => vstep o vw) ops
+    {| v0 := []; v1 := []; u2 := []; u3 := [];
+       c0 := nat_of n0; c1 := nat_of n1; c2 := nat_of n2; c3 := nat_of n3 |}.
+Proof.
+  intros Hh Hs Hd. rewrite <- view_x_init.
+  apply run_view; [exact Hh | apply init_WFx | apply init_UniqX | exact Hs | exact Hd].
+Qed.
+
+(* the capacities in the view never change *)
+Lemma vstep_caps o vw :
+  (c0 (vstep o vw), c1 (vstep o vw), c2 (vstep o vw), c3 (vstep o vw)) = (c0 vw, c1 vw, c2 vw, c3 vw).
+Proof.
+  destruct o; cbn [vstep]; unfold on_m, on_s, put_mv, put_sv;
+    repeat match goal with |- context [if ?b then _ else _] => destruct b end; reflexivity.
+Qed.
+
